@@ -12,1517 +12,1069 @@ Definition show_fres (r : fres) : string :=
   end.
 Definition check (rs : list rune) : string := digest (show_fres (format_res rs)).
 Definition full (rs : list rune) : string := show_fres (format_res rs).
-Eval vm_compute in ("<<<M3658>>>" ++ check (runes_of_ascii "// top
-options // c0
-{ // c1a
-  // c1b
-ArrayPrefixLenType // c2
-= // c3a
-  // c3b
-u16
-    // c4
-; FixedStringPadFromLeft =
-    // c7
-true // c8a
-  // c8b
-; // c9a
-  // c9b
-JavaPackage = // c11
-""com.example.msg""
-    // c12
-;
-    // c13
-GoPackage
-    // c14
-= ""msg""
+Eval vm_compute in ("<<<M1712>>>" ++ check (runes_of_ascii "
+
+  // top
+  options  // c0a
+    // c0b
+	  {	// c1
+
+ArrayPrefixLenType	// c2a
+// c2b
+= 
+u16 // c4a
+    // c4b
+;// c5a
+  // c5b
+	FixedStringPadFromLeft 
+  // c6
+  =
+	true 
+;  // c9
+      JavaPackage  // c10a
+  // c10b
+	= ""com.example.msg"" 	 // c12
+
+;	// c13
+      GoPackage 
+// c14
+	=  ""msg""
     // c16
-;
-    // c17
-GoModule // c18
-= ""example.com/msg""
-    // c20
-; // c21a
-  // c21b
-}
-    // c22
-MetaData // c23
-Meta
-    // c24
-{ // c25a
-  // c25b
-u32
-    // c26
-SeqNum
-    // c27
-`sequence number` , // c29a
-  // c29b
-char[ 8 ] // c32a
-  // c32b
-Symbol `symbol`
+  ;GoModule 
+// c18
+  	=
+
+    ""example.com/msg"";
+    }
+    MetaData
+Meta  // c24
+		{  
+  // c25
+
+u32 SeqNum`sequence number` ,
+	// c29
+
+	char[ 8 // c31
+  ]
+	    // c32
+	Symbol  // c33a
+
+// c33b
+      `symbol` 
+
     // c34
-, zchar[ // c36a
-  // c36b
-5 // c37a
-  // c37b
-] ZSym // c39
-`z symbol` // c40
-, string Note , // c44
+		,
+    // c35
+		zchar[// c36a
+// c36b
+5	// c37a
+// c37b
+      ]
+	ZSym  // c39
+    	`z symbol`
+    // c40
+,// c41a
+
+// c41b
+  string
+
+    // c42
+	Note
+
+, // c44
 Symbol
     // c45
-AltSymbol
-    // c46
+    	AltSymbol 	 // c46a
+	  // c46b
 `alias of symbol`
-    // c47
-, // c48a
-  // c48b
-f64 Price // c50
-, // c51
-} // c52
-packet
-    // c53
-Inner // c54a
-  // c54b
-{
-    // c55
-u8 a
-    // c57
-, // c58
-i16 // c59a
-  // c59b
-b , // c61a
-  // c61b
-string // c62a
-  // c62b
-c
-    // c63
-, } // c65
-packet
-    // c66
-Inner2
-    // c67
-{ u8 // c69a
-  // c69b
-a2 // c70a
-  // c70b
-, // c71
-char[ // c72
-3 ] c2 // c75a
-  // c75b
-, } // c77
-packet Logon // c79a
-  // c79b
-{
-    // c80
-u8 // c81
-x , // c83
-string // c84
-user // c85a
-  // c85b
-, repeat // c87
-u16 // c88a
-  // c88b
-codes , // c90a
-  // c90b
-} // c91a
-  // c91b
-packet
-    // c92
-Logout
-    // c93
-{ // c94a
-  // c94b
-u16 // c95
-reason // c96a
-  // c96b
-, // c97a
-  // c97b
-} packet
-    // c99
-Empty {
-    // c101
-}
-    // c102
-root packet // c104a
-  // c104b
-Msg
-    // c105
-{
-    // c106
-u8 // c107a
-  // c107b
-su8 ,
-    // c109
-uint8 luint8 , // c112
-u16 su16 ,
-    // c115
-uint16 luint16
-    // c117
-, // c118
-u32 su32 // c120
-, // c121a
-  // c121b
-uint32 // c122
-luint32 // c123
-, u64 su64 // c126a
-  // c126b
-, // c127a
-  // c127b
-uint64 // c128
-luint64 // c129a
-  // c129b
-, i8 // c131a
-  // c131b
-si8 // c132a
-  // c132b
-,
-    // c133
-int8 lint8 , // c136
-i16 // c137a
-  // c137b
-si16 , // c139
-int16 // c140
-lint16
-    // c141
-, i32
-    // c143
-si32 ,
-    // c145
-int32 lint32 , i64 si64 , // c151
-int64
-    // c152
-lint64 , f32 sf32
-    // c156
-, float32 // c158
-lfloat32
-    // c159
-, // c160a
-  // c160b
-f64
-    // c161
-sf64
-    // c162
-, // c163a
-  // c163b
-float64 // c164a
-  // c164b
-lfloat64 , // c166
-char[
-    // c167
-6 // c168a
-  // c168b
-]
-    // c169
-fsplain , // c171
-@leftPad
-    // c172
-( // c173a
-  // c173b
-'0'
-    // c174
-)
-    // c175
-char[ // c176
-4 // c177a
-  // c177b
-]
-    // c178
-fs0 // c179a
-  // c179b
-, // c180a
-  // c180b
-@rightPad // c181
-(
-    // c182
-'0'
-    // c183
-) // c184a
-  // c184b
-char[ // c185a
-  // c185b
-5
-    // c186
-] // c187
-fs1 // c188a
-  // c188b
-, // c189
-@leftPad ( // c191a
-  // c191b
-' '
-    // c192
-) char[ // c194a
-  // c194b
-6 // c195a
-  // c195b
-] fs2
-    // c197
-, // c198a
-  // c198b
-@rightPad ( ' ' // c201
-) char[
-    // c203
-7 ] fs3 // c206
-,
-    // c207
-@leftPad // c208
-(
-    // c209
-'\x00'
-    // c210
-)
-    // c211
-char[ 8 ] fs4 // c215a
-  // c215b
-, @rightPad // c217
-(
-    // c218
-'\x00' // c219
-) // c220a
-  // c220b
-char[ // c221
-9 // c222a
-  // c222b
-]
-    // c223
-fs5 // c224
-, // c225
-@leftPad
-    // c226
-( ) // c228a
-  // c228b
-char[
-    // c229
-10 // c230a
-  // c230b
-] // c231a
-  // c231b
-fs6
-    // c232
-, // c233a
-  // c233b
-@rightPad
-    // c234
-( // c235
-) char[
-    // c237
-11
-    // c238
-] // c239
-fs7
-    // c240
-, // c241
-zchar[ // c242a
-  // c242b
-7 // c243
-] fz // c245
-, // c246a
-  // c246b
-@leftPad
-    // c247
-( // c248
-'0'
-    // c249
-) // c250a
-  // c250b
-zchar[ // c251
-3 ] // c253a
-  // c253b
-fzl0 , string s1
-    // c257
-`doc`
-    // c258
-, // c259
-char[] // c260
-s2
-    // c261
-, // c262a
-  // c262b
-Inner // c263a
-  // c263b
-,
-    // c264
-Sub // c265
-{ // c266a
-  // c266b
-u8 // c267a
-  // c267b
-q
-    // c268
-, // c269a
-  // c269b
-string // c270a
-  // c270b
-w // c271a
-  // c271b
-,
-    // c272
-Deep
-    // c273
-{ u16
-    // c275
-z // c276a
-  // c276b
-, // c277a
-  // c277b
-repeat // c278a
-  // c278b
-i32 zs // c280
-,
-    // c281
-}
-    // c282
-, // c283a
-  // c283b
-} // c284a
-  // c284b
-, repeat // c286a
-  // c286b
-u8
-    // c287
-ru8
-    // c288
-,
-    // c289
-repeat
-    // c290
-u16 ru16
-    // c292
-, // c293
-repeat
-    // c294
-u32 // c295a
-  // c295b
-ru32
-    // c296
-,
-    // c297
-repeat // c298
-u64 // c299
-ru64 , // c301a
-  // c301b
-repeat i8 ri8 , repeat // c306
-i16 // c307a
-  // c307b
-ri16
-    // c308
-, repeat // c310a
-  // c310b
-i32 // c311a
-  // c311b
-ri32 , // c313
-repeat // c314a
-  // c314b
-i64 ri64 // c316a
-  // c316b
-,
-    // c317
-repeat // c318
-f32
-    // c319
-rf32 // c320
-, // c321
-repeat // c322
-f64 // c323a
-  // c323b
-rf64 // c324
-,
-    // c325
-repeat // c326
-string
-    // c327
-rstr
-    // c328
-, // c329
-repeat
-    // c330
-char[] // c331a
-  // c331b
-rstr2 , // c333
-repeat // c334
-char[ // c335a
-  // c335b
-3 ] // c337a
-  // c337b
-rfs , repeat
-    // c340
-zchar[ // c341
-3 ] rfz ,
-    // c345
-repeat // c346
-Inner2
-    // c347
-, // c348
-repeat // c349a
-  // c349b
-Grp
-    // c350
-{ // c351a
-  // c351b
-u8 // c352
-k // c353a
-  // c353b
-,
-    // c354
-char[ // c355
-2
-    // c356
-]
-    // c357
-v // c358
-, // c359a
-  // c359b
-} , // c361a
-  // c361b
-SeqNum // c362a
-  // c362b
-, // c363
-SeqNum seq2 // c365a
-  // c365b
-, // c366
-repeat SeqNum // c368a
-  // c368b
-seqs , // c370
-Symbol , // c372
-AltSymbol
-    // c373
-alt
-    // c374
-,
-    // c375
-ZSym // c376
-,
-    // c377
-Note // c378a
-  // c378b
-, // c379a
-  // c379b
-repeat // c380
-Symbol // c381a
-  // c381b
-syms // c382
-, // c383
-Price
-    // c384
-px // c385a
-  // c385b
-, // c386a
-  // c386b
-u16
-    // c387
-MsgType // c388
-, // c389
-u32
-    // c390
-BodyLen @lengthOf( Body // c393a
-  // c393b
-)
-    // c394
-, // c395
-match MsgType as // c398a
-  // c398b
-Body
-    // c399
-{ // c400a
-  // c400b
-1 : // c402
-Logon // c403a
-  // c403b
-, // c404
-[ 2 // c406a
-  // c406b
-, // c407a
-  // c407b
-3
-    // c408
-]
-    // c409
-:
-    // c410
-Logout
-    // c411
-, 7 // c413
-: Logon , // c416
-9 : // c418
-Empty // c419
-, // c420a
-  // c420b
-}
-    // c421
-, u32 // c423a
-  // c423b
-Checksum // c424
-@calculatedFrom( // c425a
-  // c425b
-""CRC32""
-    // c426
-) , }
-    // c429
-")).
-Eval vm_compute in ("<<<M3901>>>" ++ check (runes_of_ascii "packet Logon {
-    repeat string a1 `crlf
-        line`,
-    @lengthOf(Pad)
-    match Pad as u8x {
-        4294967296 : i8i8,
-    },
-    asx a1,
-    // a // b
-    // @lengthOf(
-    @lengthOf(body)
-    //x
-    msg_type int,
-    tag `line1
-        line2`,
-    repeat Z9_ {
-        u16 packetx @calculatedFrom(""it's""),
-    },
-    @lengthOf(Logon)
-    // " ++ [128512]%N ++ runes_of_ascii " emoji
-    @rightPad()
-    @calculatedFrom(""" ++ [233]%N ++ runes_of_ascii "t" ++ [233]%N ++ runes_of_ascii """)
-    repeat roots u128,
-    @calculatedFrom(""{,}"")
-    chars {
-        match roots as Foo {
-            10 : trueish,
-        },
-    },
-    i8i8,
-    @calculatedFrom(""x y"")
-    @calculatedFrom(""a\""b"")
-    repeat Z9_ {
-        f32a msg_type,
-        repeat o {
-            // " ++ [128512]%N ++ runes_of_ascii " emoji
-            // @lengthOf(
-            zchar[0] charz @calculatedFrom(""CRC32""),
-        },
-    },
-}
+        // c47
+	  , 
+  // c48
 
-root packet BodyLength {
-    calculatedFrom {
-        char[] x @calculatedFrom(""\n""),// @lengthOf(
-        _x @calculatedFrom(""`tick`""),
-        repeat u128,
-        float Packet `" ++ [28040; 24687; 31867; 22411]%N ++ runes_of_ascii "`,
-    },
-    repeat Foo {
-        uint64 a1,
-    },/// triple
-    repeat char[42] matchKey `it's`,
-    lengthOf {
-        // " ++ [27880; 37322]%N ++ runes_of_ascii "
-        u128 trueish `// not a comment`,
-        match chars as MetaDataX {
-            00 : x_y_z,
-            1 : trueish,
-            [0123456789] : calculatedFrom,
-            [
-                ""CRC32"", ""\" ++ [233]%N ++ runes_of_ascii """, ""// no comment"", ""it's"", ""packet"",
-                007
-            ] : Pad,
-        },
-    },
-    repeat char[] Logon,
-    @leftPad('0')
-    f32 Pad @calculatedFrom(""CRC32""),
-    @lengthOf(BodyLength)
-    options1 @calculatedFrom(""`tick`""),
-    A {
-        // " ++ [27880; 37322]%N ++ runes_of_ascii "
-        //	t
-        uint8 charz `u8 x,`,
-        falsey x `line1
-                line2`,
-        repeat int8 Packet,
-        zchar[1] float,
-    },
-    char[65535] matchKey @calculatedFrom(""x y""),
-    @lengthOf(o)
-    match chars as As {
-        1 : f32a,
-    },
-}
+	f64 	 // c49
+  Price 	 // c50a
+// c50b
 
-packet int {
-    @calculatedFrom(""// no comment"")
-    @rightPad()
-    @calculatedFrom(""" ++ [233]%N ++ runes_of_ascii "t" ++ [233]%N ++ runes_of_ascii """)
-    roots _x `say ""hi""`,// `tick` ""quote"" 'q'
-}
+  ,
 
-options {
-    o = ""{,}""
-    Pad = 255;
-}// " ++ [27880; 37322]%N)).
-Eval vm_compute in ("<<<M4378>>>" ++ check (runes_of_ascii "root packet options1 {
-    @rightPad('0')
-    u64 string_ `a\`,
-    @lengthOf(u128)
-    @tag(7)
-    i16 o,
-    repeat uint8 a1,
-    @lengthOf(msg_type)
-    repeat float64 Z9_ `two words`,
-    match metadata as Logon {
-        [""" ++ [128512]%N ++ runes_of_ascii """, 42] : A,
-    },
-    BodyLength len,
-    // a // b
-}
+// c51
 
-packet zchar {
-    string_ lengthOf,
-    match x as Logon {
-        """ ++ [28040; 24687]%N ++ runes_of_ascii """ : calculatedFrom,
-        """ ++ [233]%N ++ runes_of_ascii "t" ++ [233]%N ++ runes_of_ascii """ : roots,
-        [255] : falsey,
-        255 : T,
-        // packet A { u8 x, }
-    },
-    repeat charz,
-    @calculatedFrom(""it's"")
-    @calculatedFrom(""\n"")
-    @rightPad(' ')
-    int32 rootA,
-    i64_ leftPad,
-    roots,
-    char[] msg_type `" ++ [233]%N ++ runes_of_ascii "`,
-    pack @calculatedFrom(""// no comment""),
-    @rightPad(' ')
-    repeat leftPad,
-    int64 lengthOf,
-}// trailing space 
+  } // c52a
+	// c52b
 
-packet msg_type {
-    @lengthOf(Z9_)
-    repeat trueish {
-        // trailing space 
-        stringy `{ , }`,
-        u64 calculatedFrom @calculatedFrom(""it's""),
-        char[10] crc,
-    },
-    match f32a as Logon {
-        // @lengthOf(
-        ""abc"" : BodyLength,
-        [0, 42] : Header,
-        007 : Z9_,
-        ""a\""b"" : chars,
-    },
-    @lengthOf(roots)
-    options1 A `u8 x,`,
-    char[1] u128,
-    @lengthOf(x_y_z)
-    //x
-    //
-    MetaDataX @calculatedFrom(""1"") `{ , }`,
-    len {
-        x_y_z Logon,
-        matchKey repeatCount,
-        T {
-            i8 trueish @calculatedFrom(""\" ++ [233]%N ++ runes_of_ascii """) `tab	here`,
-        },
-        // a // b
-        repeat float zchar `two words`,
-    },
-    repeat u8 metadata `crlf
-    line`,
-    @calculatedFrom(""\" ++ [233]%N ++ runes_of_ascii """)
-    char[0] trueish @calculatedFrom(""""),//x
-    uint8 charz,
-}
-
-MetaData a1 {
-    f32 trueish `line1
-    line2`,
-    string uint8x `" ++ [28040; 24687; 31867; 22411]%N ++ runes_of_ascii "`,
-    i32 tag,
-    stringy zchar `" ++ [28040; 24687; 31867; 22411]%N ++ runes_of_ascii "`,
-}")).
-Eval vm_compute in ("<<<M120>>>" ++ check (runes_of_ascii "root packet // c
-falsey { roots { repeat x_y_z ,
-} , char[] T `
-` , char[	3 ]T/// triple
-,zchar { repeat
-zchar[ 65535 ]
-    rootA  `tab	here`
-    , int32 leftPad , }
-,
-// packet A { u8 x, }
-// `tick` ""quote"" 'q'
-repeat
-    Packet
-    //	t
-    ,repeat
-char[ 00 ] body`" ++ [233]%N ++ runes_of_ascii "` , @tag(
-00// @lengthOf(
-) a1 i64_
-, i8i8 BodyLength `{ , }`
-    , match
-    crc as u8x
-// a // b
-//	t
-{ [
-    // `tick` ""quote"" 'q'
-    0 ]:
-    matchKey , [ 0123456789,
-""a\\""
-,
-""abc"" ]:As , """ ++ [128512]%N ++ runes_of_ascii """ : tag, 7 :
-    u8x , 42 : f32a 00 :options1 } // trailing space 
-,} packet// " ++ [27880; 37322]%N ++ runes_of_ascii "
-MetaDataX{@tag( 42)@leftPad ( ) @leftPad
-    //x
-    ( )  body i64_ , } packet int{ @calculatedFrom(
-// " ++ [27880; 37322]%N ++ runes_of_ascii "
-//
-""" ++ [233]%N ++ runes_of_ascii "t" ++ [233]%N ++ runes_of_ascii """)
-@tag(42 ) @leftPad	( '\x00' ) repeat u8x ,  repeat len , @tag(	255	)match calculatedFrom as Z9_ {  ""CRC32"" :	len,""packet"" : falsey, [65535,
-42//x
-]// @lengthOf(
-: charz ,
-} // @lengthOf(
-,i8i8 ,match
-i8i8
-    as Foo // trailing space 
-{ ""a\\"" : x , } , @leftPad
-( ) char crc `say ""hi""` ,
-} options {	Pad =
-    zchar[ // trailing space 
-0
-]; pack="""" // c
-;
-    } root
-    packet lengthOf
-{ @leftPad ('0' ) A
-    // trailing space 
-    @calculatedFrom(
-// " ++ [27880; 37322]%N ++ runes_of_ascii "
-//
-""\" ++ [233]%N ++ runes_of_ascii """),@calculatedFrom( ""abc""// c
-)  repeat// c
-char[] a1 ,repeat int  trueish  , @rightPad(
-    '\x00'
-    )// a // b
-zchar[4294967296 ] _x ,repeat
-stringy //
-x	,@tag( 00  ) @lengthOf( int )  @tag( 0) u8	T	,
-@tag(1 ) @lengthOf(
-a1 ) @calculatedFrom( ""it's"" ) char[ 10 ] body ,  @lengthOf( f32a )
-    rootA
-@calculatedFrom(""{,}"" ), // " ++ [128512]%N ++ runes_of_ascii " emoji
-} 	 ")).
-Eval vm_compute in ("<<<M105>>>" ++ check (runes_of_ascii "packet
-uint8x {match Pad as// " ++ [128512]%N ++ runes_of_ascii " emoji
-repeatCount{ [0 ] :
-lengthOf ,[""// no comment"" ] :
-metadata ,} , metadata
-// trailing space 
-//
-, zchar[/// triple
-1
-] trueish//	t
-, @calculatedFrom(""a\""b"" ) match//x
-roots as f32a { 4294967296
-: i64_ , ""it's""
-: a1 , [
-    // trailing space 
-    00	,
-    0123456789 ] : As ,
-255 : Packet , ""{,}"" :
-T/// triple
-0
-    :
-falsey } ,
-    body @calculatedFrom( ""\n""
-    // trailing space 
-    ) , @calculatedFrom( """ ++ [128512]%N ++ runes_of_ascii """ )	@tag(
-10 ) char[ 10 ]
-    trueish `doc` ,	@tag( 255 ) repeat
-    Z9_ { asx chars`// not a comment` , } , @lengthOf(Packet ) u16
-    crc , }
-    // `tick` ""quote"" 'q'
-    options
-{ BodyLength =
-    i32 ; x// " ++ [128512]%N ++ runes_of_ascii " emoji
-=
-255
-    ; u= 3 } options
-{ }
-packet
-    calculatedFrom {	}
-    //x
-    root
-packet Header {
-    Pad {
-repeatCount ,  uint16 zchar , match msg_type
-as
-pack
-    /// triple
-    {	""abc"" : repeatCount , ""{,}"" : repeatCount""a	b""	: calculatedFrom},
-repeat string
-Logon `a\` , }
-,@lengthOf( x_y_z
-    ) match
-tag as repeatCount { 007 :  BodyLength , [
-    //	t
-    """ ++ [28040; 24687]%N ++ runes_of_ascii """ ] :
-BodyLength 42: string_ ""// no comment""
-// trailing space 
-/// triple
-: //
-Z9_ , 4294967296:
-    // " ++ [128512]%N ++ runes_of_ascii " emoji
-    _x
-    } , f64 u `it's` , zchar[ 00] f32a `doc` ,match
-    i64_
-    as Logon
-    { 4294967296// a // b
-:
-metadata ,
-}
-, char[1 ]Pad
-, zchar[  0123456789 ] float // @lengthOf(
-`` , }
-
-")).
-Eval vm_compute in ("<<<M134>>>" ++ check (runes_of_ascii "packet As { options1
-    { i16 o , } , i64 roots ,repeat char[] o
-    `a\` , @calculatedFrom( ""1""//x
-)  repeatCount	@lengthOf(/// triple
-falsey /// triple
-)
-// packet A { u8 x, }
-// " ++ [128512]%N ++ runes_of_ascii " emoji
-`a\` ,
-@lengthOf( stringy ) char[]	As
-`" ++ [233]%N ++ runes_of_ascii "` ,
-asx {match msg_type as
-chars { //	t
-00: metadata
-    // `tick` ""quote"" 'q'
-    , }
-    , i8 pack// c
-@calculatedFrom(
-    /// triple
-    ""x y"" )
-// trailing space 
-// a // b
-,//	t
-match u8x as	rootA{
-""1"": a1
-, [
-    // packet A { u8 x, }
-    4294967296 ]
-:msg_type
-//
-//x
-,
-}
-, } // a // b
-, @calculatedFrom(
-""" ++ [233]%N ++ runes_of_ascii "t" ++ [233]%N ++ runes_of_ascii """ ) int16 roots ,
-    @tag(1 )	@leftPad ( '0' ) @rightPad // " ++ [27880; 37322]%N ++ runes_of_ascii "
-( '\x00'
-)i32 asx `tab	here`	,char Logon `u8 x,` // trailing space 
-,  }
-root	packet string_ {// @lengthOf(
-}packet Z9_ { int8 _x
-, repeat u8 uint8x `" ++ [233]%N ++ runes_of_ascii "`
-,
-float64 x_y_z @calculatedFrom(	""x y"" )
-    , @calculatedFrom(	""a\""b"" ) @calculatedFrom( ""a\""b"" )
-    int
-{zchar[255
-] //
-msg_type,  i64_
-    // trailing space 
-    {
-    stringy @lengthOf(x_y_z )
-    , u
-    options1
-    //
-    `tab	here` ,
-char[0123456789 ] msg_type ,float32
-    Foo `{ , }`
-    , } , } ,  @tag(	0
-)
-    @calculatedFrom( ""CRC32"" ) charz , @tag(
-    // @lengthOf(
-    4294967296 )
-i64 packetx ,  } //	t")).
-Eval vm_compute in ("<<<M4570>>>" ++ check (runes_of_ascii "// `tick` ""quote"" 'q'
-packet Pad {
-    pack {
-        char repeatCount @lengthOf(a1),
-        int16 Pad,
-        int16 calculatedFrom,
-    },
-    @lengthOf(tag)
-    uint16 repeatCount,
-    @tag(10)
-    char[007] trueish,
-    Header @calculatedFrom(""\n"") `
-    `,
-    i8i8 a1 `" ++ [28040; 24687; 31867; 22411]%N ++ runes_of_ascii "`,
-    u32 x @calculatedFrom(""abc""),
-    @lengthOf(crc)
-    //x
-    // " ++ [27880; 37322]%N ++ runes_of_ascii "
-    repeat char[3] charz `crlf
-    line`,
-}
-
-MetaData MetaDataX {
-    x As,
-}//	t
-
-root packet chars {
-}
-
-packet o {
-    @lengthOf(msg_type)
-    /// triple
-    repeat uint64 float,
-    a1,
-    repeatCount {
-        char[00] u8x @lengthOf(Header) `" ++ [28040; 24687; 31867; 22411]%N ++ runes_of_ascii "`,
-        len @lengthOf(options1),
-        x @lengthOf(pack) `two words`,
-        char[] leftPad `" ++ [233]%N ++ runes_of_ascii "`,
-    },
-    char[] stringy @lengthOf(msg_type) `u8 x,`,
-    @calculatedFrom(""it's"")
-    Header A,
-    char[1] f32a,
-}
-
-root packet packetx {
-    // a // b
-    repeat zchar[007] u8x,
-    @leftPad('0')
-    f64 stringy @lengthOf(lengthOf),
-    match T as o {
-        65535 : tag,
-        255 : o,
-        """" : stringy,
-    },
-    @lengthOf(calculatedFrom)
-    @leftPad('0')
-    @lengthOf(u)
-    f64 Logon @lengthOf(_x),
-}//	t")).
-Eval vm_compute in ("<<<M4542>>>" ++ check (runes_of_ascii "  packet  
-  // c
-  // @lengthOf(
-      int { 
-@lengthOf(//
-	pack
-)f64  asx @calculatedFrom( ""abc""  )
-,
-
-    @calculatedFrom(
-
-""\" ++ [233]%N ++ runes_of_ascii """	) f64//	t
-u
-`// not a comment`
-, 	 // " ++ [128512]%N ++ runes_of_ascii " emoji
-	@lengthOf(stringy )	@tag(
-
-3
-	)
-@rightPad
-(
-)
-
-repeat float32 rootA
-, msg_type
-@lengthOf( packetx
-    // " ++ [27880; 37322]%N ++ runes_of_ascii "
-    ) , @lengthOf(
-
-    repeatCount
-    )//x
-	  @calculatedFrom( ""`tick`"" 
-) 
-float
-lengthOf, 
-}
-
-packet 
-Pad
-	{ 
-repeat	uint8x	body `u8 x,`	, zchar
-	{
-
-u8
-trueish
-
-,
-
-float`
-`
-    ,} 
-,
-    @lengthOf( uint8x 
-) @lengthOf(  //x
-
-float 
-)
-
-    u64 
-T	@calculatedFrom(""// no comment"" 
-)
-    , 
-@rightPad(	)repeat	options1	//x
-	int
-,
-@tag( 00
-    // c
-    	// c
-
-)
-
-@lengthOf(string_ 
-        // c
-    	/// triple
-	)	@lengthOf(
-    f32a) string 
-/// triple
-  	//	t
-	u,
-match
-    // trailing space 
-    	x
-
-    as
-	uint8x{
-[
-
-    ""it's"" ,""x y""
-	,
-    ""it's"" ] : 	 // " ++ [128512]%N ++ runes_of_ascii " emoji
-
-  i64_
-
-    ,  // c
-	  }
-, }
-
-    root  packet trueish
-{
-    i8i8 
-`line1
-line2`, }	// " ++ [27880; 37322]%N ++ runes_of_ascii "
-    packet tag{	//	t
-	float64 // packet A { u8 x, }
-  Foo ``
-
-    ,
-}
-
-")).
-Eval vm_compute in ("<<<M563>>>" ++ check (runes_of_ascii "packet
-// `tick` ""quote"" 'q'
-// `tick` ""quote"" 'q'
-trueish {
-    repeat packetx /// triple
-zchar , // " ++ [128512]%N ++ runes_of_ascii " emoji
-zchar[ 1
-]
-    /// triple
-    stringy ,
-    @lengthOf( u8x ) repeat
-    f32 Logon,
-repeat u8x {
-zchar[	007
-    ]crc
-@calculatedFrom( ""a\\"" ) ,}
-,@tag( 255
-) @calculatedFrom(
-""it's"" //	t
-)	@tag( 65535 )repeat x
-{
-    repeat u8x metadata ,
-zchar[
-    //
-    00 ]  stringy@lengthOf( float
-    )
-`two words` , }
-, @lengthOf( A ) @calculatedFrom( ""packet"" )@rightPad ( '0'  )	Header ,msg_type charz , // packet A { u8 x, }
-} packet x
-{ @calculatedFrom( """ ++ [128512]%N ++ runes_of_ascii """ )
-zchar[ 0123456789 ]A
-    // c
-    @calculatedFrom( ""a	b""
-    )
-, @calculatedFrom( // " ++ [128512]%N ++ runes_of_ascii " emoji
-""""
-) repeat BodyLength `
-` ,
-    }packet Foo{  char[
-    7 ] crc // " ++ [27880; 37322]%N ++ runes_of_ascii "
-@lengthOf(
-charz )
-    // @lengthOf(
-    ,
-@lengthOf( float
-) charz ,repeat i8 Foo, uint64 leftPad /// triple
-`{ , }`
-    ,// `tick` ""quote"" 'q'
-falsey
-A,
-repeat u128 x_y_z `// not a comment`
-    // " ++ [128512]%N ++ runes_of_ascii " emoji
-    ,/// triple
-Logon @calculatedFrom( ""a	b"" )	, }
-")).
-Eval vm_compute in ("<<<M62>>>" ++ check (runes_of_ascii "MetaData Packet { // `tick` ""quote"" 'q'
-Header
-// " ++ [27880; 37322]%N ++ runes_of_ascii "
-// c
-uint8x
-`{ , }`, x_y_z u8x `it's`
-// packet A { u8 x, }
-// packet A { u8 x, }
-,
-} // trailing space 
-root packet packetx { repeat char[]  packetx , string zchar@lengthOf( a1
-)	`tab	here`
-    // @lengthOf(
-    ,
-match
-    string_ as float { ""a\""b""  : Logon , 00
-    :
-    Foo 42 : stringy	[ 255
-    , 0, ""a\\""] :f32a // @lengthOf(
-[7 ,	""`tick`""
-] : float , 0 : // c
-len //	t
-,} , @lengthOf( Header	)
-    //
-    len`doc`
-, repeat
-Pad { // " ++ [27880; 37322]%N ++ runes_of_ascii "
-repeat	Pad `it's`,// @lengthOf(
-char[ 65535
-    ]i64_
-    @calculatedFrom( //
-""1"" )
-    `a\` , crc
-    // `tick` ""quote"" 'q'
-    `two words` , match len
-// a // b
-/// triple
-as
-BodyLength { ""abc""
-    // " ++ [27880; 37322]%N ++ runes_of_ascii "
-    :a1, [ ""packet""
-    /// triple
-    ,
-    7
-    ]
-    : crc
-,
-    // c
-    3 :
-    asx , }	,	} ,
-int8 rootA @lengthOf(crc ),@lengthOf( chars)
-    // trailing space 
-    @tag( 7 ) @tag(7 ) repeat char[ 10 ] packetx	, }
-
-")).
-Eval vm_compute in ("<<<M604>>>" ++ check (runes_of_ascii "  packet MetaDataX
-    { @calculatedFrom( """ ++ [233]%N ++ runes_of_ascii "t" ++ [233]%N ++ runes_of_ascii """ ) @calculatedFrom( ""x y"" ) match
-    crc as A { 1 : As ,}
-    ,
-    }
-options {  uint8x
-    = false ;
-} packet	Foo {@tag( 007 ) repeat	x repeatCount, match uint8x as	roots { ""{,}"":
-Foo  , } , @tag( 10
-    // " ++ [128512]%N ++ runes_of_ascii " emoji
-    )int32	msg_type@lengthOf( rootA
-    //	t
-    ) , @calculatedFrom(	""a\""b"")@tag( 10 ) @lengthOf( msg_type )
-A `// not a comment`
-    , int64 asx @calculatedFrom(
-""\" ++ [233]%N ++ runes_of_ascii """ ) , asx @calculatedFrom( ""a\\"" ) ,@calculatedFrom( ""\n""
-) u64
-// c
-// " ++ [128512]%N ++ runes_of_ascii " emoji
-stringy
-    @calculatedFrom( ""CRC32"" ) `u8 x,`
-    ,  @calculatedFrom(
-""1"") @lengthOf(/// triple
-string_ // `tick` ""quote"" 'q'
-)//x
-uint16 roots	@lengthOf(
-u8x
-) `" ++ [28040; 24687; 31867; 22411]%N ++ runes_of_ascii "` ,
-}
-    root packet //	t
-len{ @calculatedFrom(
-    // trailing space 
-    ""CRC32"" ) @tag(
-1)
-repeat
-    char[] Pad
-,} options	{ Pad =
-false ;
-    string_ = uint16 ;
-stringy //
-=
-string } // " ++ [128512]%N ++ runes_of_ascii " emoji")).
-Eval vm_compute in ("<<<M3714>>>" ++ check (runes_of_ascii "  packet	Pad {}
-	options 
-{ _x	= false
-/// triple
-    // trailing space 
-	;
-	} MetaData repeatCount
-	{char[ 10
-	]As
-    `it's`
-    , 
-T
-
-metadata
-    `say ""hi""` ,
-    u16
-matchKey ,  }packet
-    u128 {f32	As	@calculatedFrom(
-	""packet""
-)`a\`
-    , repeat
-// packet A { u8 x, }
-// " ++ [128512]%N ++ runes_of_ascii " emoji
-    char[ 
-7
-    ]
-
-    // packet A { u8 x, }
-      // `tick` ""quote"" 'q'
-
-T`say ""hi""` ,
-	@lengthOf( 
-
-    // c
-    rootA	)
-u64	//
-  trueish  `{ , }` ,
-    repeat
-
-    char[ 
-3
-
-] MetaDataX ,repeat float64
-i64_, 
+	packet	// c53a
+      // c53b
+	Inner// c54
+	{  
+      // c55
+    u8
+    // c56
+a 	 // c57a
+    // c57b
+,// c58a
+	// c58b
 i16
-charz  ,	u8
-trueish @lengthOf( int)
+// c59
+    	b  // c60
+,// c61a
+// c61b
+    string 	 // c62
+    c 
+,  // c64a
 
-    `u8 x,` , @leftPad  ( '0' ) match
+// c64b
+    	}
 
-Header as
-	f32a{  [007
+    // c65
 
-    ]:
-    i8i8, ""a	b"":  //x
-    As  ,[ ""\n""
+	packet
+Inner2 	 // c67a
+  	// c67b
+  { 	 // c68a
+    	// c68b
+u8
 
-    ]	: zchar
-,
-007
-    :a1 , 
-0123456789 :
-	falsey	,
-
-}	,
-repeat float64 stringy  `a\`
-    ,	}
+a2 
+// c70
+      ,  // c71a
+	// c71b
+	char[
+	3 ] // c74
+      c2 , 
+  // c76
+  }
 
     packet 
-MetaDataX 
-{  roots
+Logon 	 // c79
+	{ 
+	    // c80
+u8 	 // c81
+    x
+	// c82
 
-// @lengthOf(
+  ,
+    // c83
 
-leftPad `a\`
-	,} ")).
-Eval vm_compute in ("<<<M446>>>" ++ check (runes_of_ascii "// a // b
-MetaData x{ i8 MetaDataX
-`" ++ [233]%N ++ runes_of_ascii "`
+	string  
+  // c84
+	user ,
+
+repeat u16// c88a
+// c88b
+codes 
+,	// c90
+    } 
+    // c91
+
+  packet// c92
+	Logout  // c93a
+// c93b
+  { 	 // c94
+
+u16// c95a
+    // c95b
+
+	reason 
+
+// c96
+	,	// c97
+    } // c98
+  packet
+
+// c99
+  	Empty
+
+{ 	 // c101a
+
+// c101b
+    }
+        // c102
+
+root// c103a
+// c103b
+
+  packet // c104a
+  // c104b
+	Msg
+
+    // c105
+{ // c106a
+    	// c106b
+	u8
+        // c107
+    su8 // c108
+
 ,
-string matchKey
-//	t
-// " ++ [27880; 37322]%N ++ runes_of_ascii "
-, // packet A { u8 x, }
-BodyLength
-f32a,
-char[ 7 ] u8x ,	char[] len , int16
-msg_type
-    , }packet o{ match roots as T{ [
-    255 , 1 , 1 , """ ++ [28040; 24687]%N ++ runes_of_ascii """
-, ""`tick`"",
-    ""a\""b""
-// c
-//x
-, 42	] :pack
-, [ 0 //
+	uint8
+        // c110
+    luint8
+
+// c111
+  	,// c112
+      u16 
+    // c113
+	  su16// c114
+	, // c115a
+	  // c115b
+    uint16  // c116
+
+  luint16
+
+,  // c118
+	u32  // c119a
+    // c119b
+  	su32
+
+// c120
+    	,// c121
+    uint32
+	    // c122
+luint32 	 // c123a
+
+// c123b
+    ,	// c124
+    	u64
+    su64 // c126a
+	// c126b
+, uint64 luint64 ,
+
+// c130
+      i8
+
+    // c131
+si8// c132
+	  ,// c133
+
+  int8
+
+// c134
+	lint8 // c135a
+
+// c135b
+    	, 	 // c136a
+		// c136b
+    i16 
+    // c137
+
+si16// c138
+	,	// c139a
+
+// c139b
+
+int16  // c140a
+	  // c140b
+	  lint16 
+// c141
+,	// c142a
+  // c142b
+	  i32  // c143a
+    // c143b
+    si32 	 // c144a
+// c144b
+	,
+	// c145
+
+int32 
+    // c146
+  lint32 , 
+// c148
+    i64 	 // c149a
+  // c149b
+si64 // c150a
+	// c150b
+
+, // c151a
+  // c151b
+int64
+    lint64  // c153
+  ,
+// c154
+    	f32 
+// c155
+sf32  // c156a
+    // c156b
+	, 	 // c157a
+
+// c157b
+    float32 
+lfloat32 	 // c159a
+	// c159b
+, 
+      // c160
+    	f64 
+
+// c161
+sf64
+// c162
+	,
+    // c163
+	float64 lfloat64 
+    // c165
+,  // c166
+	char[ 
+// c167
+	  6	// c168a
+  	// c168b
+	]
+// c169
+  fsplain 
+    // c170
+  ,  // c171
+	@leftPad 	 // c172
+
+( '0' // c174a
+// c174b
+    	) char[ 
+4 
+]fs0	// c179
+,// c180a
+  // c180b
+
+@rightPad  
+      // c181
+    ( '0' // c183a
+
+// c183b
+) // c184a
+  // c184b
+char[	5 // c186
+		] 	 // c187a
+  // c187b
+	  fs1,// c189a
+		// c189b
+  	@leftPad 
+    // c190
+    (	// c191
+    	' ' 
+// c192
+    )  // c193
+    char[	// c194
+	6 	 // c195
+  ] 	 // c196a
+
+// c196b
+  fs2// c197
+      , 
+    // c198
+
+	@rightPad 	 // c199
+		(
+    // c200
+' ' 
+
+// c201
+      ) // c202
+	char[ 
+  // c203
+	7	// c204a
+  // c204b
+]fs3 	 // c206
+,  // c207
+  @leftPad  // c208a
+	// c208b
+    (
+	'\x00'  // c210a
+      // c210b
+  )
+
+    char[ 
+8 
+// c213
+  ] // c214
+  fs4
+
+, @rightPad
+(
+// c218
+  '\x00'// c219
+	) 
+  // c220
+	char[// c221
+9	// c222a
+  	// c222b
+	  ] 
+	// c223
+		fs5  // c224a
+  // c224b
+    	,  // c225
+  @leftPad // c226a
+	// c226b
+(
+        // c227
+	)	// c228
+	char[ 
+// c229
+  10
+        // c230
+    ] 	 // c231
+  fs6 // c232a
+  // c232b
+  ,
+	@rightPad	// c234a
+
+  // c234b
+
+	(// c235a
+// c235b
+  	)  // c236
+  char[11 // c238a
+	// c238b
+  ]	// c239
+    	fs7 ,	// c241a
+
+// c241b
+zchar[
+	7 	 // c243
+
+  ] fz 	 // c245
+  , 
+    // c246
+
+@leftPad
+    // c247
+
+(
+
+// c248
+	'0'  // c249
+
+) 
+// c250
+
+	zchar[// c251a
+    // c251b
+  3  // c252a
+// c252b
+
+] // c253
+    	fzl0 // c254a
+  // c254b
+    , // c255
+
+string// c256
+	s1 
+    // c257
+
+  `doc`  // c258a
+
+// c258b
+  , 	 // c259a
+	// c259b
+  	char[]  
+  // c260
+	  s2	// c261
+    , 	 // c262
+	Inner
+    // c263
+	, Sub
+
+    {// c266a
+  	// c266b
+	u8 
+      // c267
+	q// c268
+
 ,
-""// no comment"" ] :
-    Logon, [ ""1"", ""abc""
-, 255 , 3 , ""\n""	, 255 , """ ++ [128512]%N ++ runes_of_ascii """
+
+string w  // c271a
+// c271b
+  , 
+  // c272
+    Deep 	 // c273a
+		// c273b
+      {
+u16  // c275
+
+	z// c276a
+    // c276b
+	, // c277
+  repeat
+    i32// c279a
+
+	// c279b
+  zs // c280a
+
+// c280b
+	, 
+
+// c281
+	} 
+// c282
+, 
+    // c283
+    } 
+
+    // c284
+		,  repeat	// c286
+	u8
+	ru8 
+,  // c289
+
+  repeat 
+u16  // c291
+	  ru16	// c292
+, 	 // c293a
+// c293b
+		repeat 
+    // c294
+  u32
+
+ru32 // c296a
+
+// c296b
+		,	// c297
+  repeat 	 // c298a
+
+// c298b
+
+  u64 
+      // c299
+      ru64	,
+repeat 
+      // c302
+  i8
+
+    // c303
+
+ri8 	 // c304a
+// c304b
+
+,  repeat	// c306
+	i16 	 // c307a
+// c307b
+ri16 
+	    // c308
+  ,repeat i32 // c311a
+	// c311b
+  ri32// c312a
+	// c312b
+, 
+    // c313
+
+  repeat 
+      // c314
+
+i64 ri64// c316
     ,
-    ""{,}""
-] // a // b
-:
-    x_y_z , }
+	    // c317
+  	repeat 	 // c318
+    f32 
+rf32,
+        // c321
+  repeat// c322
+    	f64// c323
+
+  rf64 
+        // c324
 ,
-    char[] len
-    @lengthOf(Pad )
+    // c325
+    repeat// c326a
+	// c326b
+	  string// c327
+	rstr ,
+	    // c329
+    	repeat 
+
+// c330
+char[] 	 // c331
+  rstr2 // c332
+  ,  // c333a
+
+  // c333b
+      repeat
+    char[	// c335a
+// c335b
+	3// c336a
+  // c336b
+	]// c337a
+
+// c337b
+
+  rfs 
+, 	 // c339
+repeat zchar[
+	// c341
+	3	// c342a
+	// c342b
+	] 	 // c343
+rfz
 ,
-char[]
-BodyLength ,trueish @calculatedFrom(""1"" )`" ++ [233]%N ++ runes_of_ascii "` , match
-chars as x_y_z{ ""`tick`""
-:calculatedFrom , } , @lengthOf( string_ ) char[
-    3 ]f32a,falsey `" ++ [28040; 24687; 31867; 22411]%N ++ runes_of_ascii "` ,
-repeat int64 //
-u128 `tab	here`, uint8 msg_type @calculatedFrom( ""a\\"" )  `line1
-line2`	, } options
+    repeat // c346
+	Inner2,	// c348
+	repeat Grp
+// c350
+  {
+u8 
+        // c352
+	k // c353a
+  	// c353b
+	,
+	    // c354
+    	char[	// c355
+	2  
+      // c356
+    ]  
+  // c357
+	v// c358
+		, 
+    // c359
+  	} 
+        // c360
+  ,  // c361a
+    // c361b
+    SeqNum
+,  
+  // c363
+
+	SeqNum seq2  // c365a
+  	// c365b
+  ,
+
+    repeat
+
+SeqNum // c368a
+    	// c368b
+
+	seqs// c369a
+	// c369b
+    , // c370
+  	Symbol // c371
+  ,	// c372a
+    // c372b
+  AltSymbol
+alt
+
+, 	 // c375
+    ZSym
+
+    // c376
+,  
+  // c377
+  Note 
+    // c378
+      ,	// c379a
+
+// c379b
+  	repeat// c380a
+
+  // c380b
+	  Symbol// c381a
+
+  // c381b
+	syms
+// c382
+  ,	// c383a
+    	// c383b
+  Price px
+    // c385
+  , 
+// c386
+  u16
+	MsgType
+
+    , u32
+
+    // c390
+  BodyLen // c391
+		@lengthOf( 
+Body 	 // c393a
+
+// c393b
+    )	// c394a
+// c394b
+		,
+
+// c395
+	match  MsgType  // c397
+  as
+    Body 
+    // c399
+
 {
-    body =zchar[ 4294967296
-] ;u128 = '\x00' BodyLength= float32 }
-// @lengthOf(
-")).
-Eval vm_compute in ("<<<M1303>>>" ++ check (runes_of_ascii "  root packet // a // b
-f32a{ zchar[0123456789] Foo , zchar @lengthOf(
-a1 ),
-    @rightPad// packet A { u8 x, }
-( ) @tag( 3
-    //
-    ) match
-int as stringy {
-    [ 0]: chars,0  :
-i8i8 42:	i64_
-, [
-// c
-// packet A { u8 x, }
-255
-/// triple
-// `tick` ""quote"" 'q'
-,
-7 ,""1"", ""a\\""] :
-    leftPad,
-""" ++ [233]%N ++ runes_of_ascii "t" ++ [233]%N ++ runes_of_ascii """
+// c400
+
+	1	// c401a
+	  // c401b
+
 :
-Header ,
-    [ 7 ] : repeatCount ,
-} , i32 falsey @lengthOf(
-    u128 ) `two words` ,@tag( 0 )
-char[]
-// trailing space 
-// " ++ [27880; 37322]%N ++ runes_of_ascii "
-uint8x `{ , }`	, // " ++ [128512]%N ++ runes_of_ascii " emoji
-repeat MetaDataX { string /// triple
-len
-    ,// `tick` ""quote"" 'q'
-} ,
-@leftPad (// a // b
-'\x00'
-    //x
-    )
-    zchar[
-    0123456789	]o, f32 As
-@calculatedFrom(
-    ""a\\"" )
-    , @lengthOf(string_ )repeat u128
-    `` , pack/// triple
-{
-    crc stringy , repeat string asx , } , }
-")).
-Eval vm_compute in ("<<<M910>>>" ++ check (runes_of_ascii "//x
-packet zchar { match a1 as
-BodyLength
-    {
-    [// " ++ [128512]%N ++ runes_of_ascii " emoji
-""a\\""] :trueish ,
-} ,@leftPad (
-    //	t
-    '0' )	repeatCount @calculatedFrom( ""a	b"" )
-`tab	here`
-    ,int8 o @lengthOf(
-i64_ )
-    `u8 x,` ,
-    u8 chars	,
-} packet trueish {@lengthOf( crc )@calculatedFrom( """ ++ [128512]%N ++ runes_of_ascii """) @calculatedFrom(  ""`tick`""  )//x
-match BodyLength as Z9_
-    {
-    3: falsey [ 42 , 00 , 3
-, 10
-]
-    :
-    packetx	,255:
-metadata	,} // trailing space 
-, repeat x_y_z
-Header , @calculatedFrom( ""CRC32"" ) Z9_ // trailing space 
-{	x
-    // @lengthOf(
-    @calculatedFrom( ""1""
-// packet A { u8 x, }
-//x
-) `it's`	,
-// packet A { u8 x, }
-// trailing space 
-string
-Header, }
-,
-    @lengthOf( roots  ) i64_
-    , }
-// @lengthOf(
-")).
-Eval vm_compute in ("<<<M1282>>>" ++ check (runes_of_ascii "options { string_
-=
-0123456789 ; u=""" ++ [28040; 24687]%N ++ runes_of_ascii """ ; } options { f32a= 1
-// " ++ [27880; 37322]%N ++ runes_of_ascii "
-//x
-;}packet u8x{	float32 A@calculatedFrom( ""`tick`""
-    //x
-    ) ,i16 o
-    `" ++ [233]%N ++ runes_of_ascii "` ,int64 Logon	`
-`,@calculatedFrom( ""`tick`"") @tag(
-    //x
-    42 ) @leftPad
-    (	)
-    int8
-    // a // b
-    len
-    ,repeat char[3  ] // @lengthOf(
-crc , char[] Packet	@lengthOf( pack ) // trailing space 
-`" ++ [233]%N ++ runes_of_ascii "` // packet A { u8 x, }
-, /// triple
+    // c402
+  	Logon 
+// c403
+  ,	// c404a
+	  // c404b
+    	[	// c405a
+
+// c405b
+    2 	 // c406
+  ,
+3 	 // c408a
+    // c408b
+  ] 	 // c409
+    : 
+
+    // c410
+      Logout
+
+,// c412
+  7  :	// c414
+		Logon
+	// c415
+  , 	 // c416
+9 
+    // c417
+  :	// c418
+  Empty
+, 	 // c420
+  }// c421a
+// c421b
+
+  ,  
+      // c422
+u32
+    Checksum  // c424
+
+@calculatedFrom(// c425
+
+	""CRC32""	// c426a
+    	// c426b
+) // c427
+  	,// c428a
+	// c428b
+
 }
-// @lengthOf(
-// @lengthOf(
-packet MetaDataX{ match u8x as Header{0 : body
-    //x
-    , [  ""\n""
-,""\n""
+
+    // c429")).
+Eval vm_compute in ("<<<M271>>>" ++ check (runes_of_ascii "// " ++ [27880; 37322]%N ++ runes_of_ascii "
+options
+    {
+zchar // a // b
+= ""x y""
+; options1 = u16
+;} packet
+Pad{ Z9_@calculatedFrom(
+"""")`
+` , @tag( 42
+    ) //
+@tag( 00 ) @lengthOf( zchar	) match _x// packet A { u8 x, }
+as metadata	{
+007: As ""`tick`""// packet A { u8 x, }
+: lengthOf,255 :lengthOf ""a	b""
+// trailing space 
+// " ++ [27880; 37322]%N ++ runes_of_ascii "
+:
+Packet 255: a1
+    , // c
+[ 00 ,
+    0 , 10 ,	""a\\"" , ""it's"" ,
+10, 7	]
+: Foo , }
+    , match Header
+as  o{
+[// packet A { u8 x, }
+255 ]
+    : zchar ,0123456789 :leftPad
+    [	007	, 3 ] : leftPad , // c
+0: packetx
+, } , } MetaData
+    Pad { // packet A { u8 x, }
+} packet T
+    // packet A { u8 x, }
+    {
+    // " ++ [27880; 37322]%N ++ runes_of_ascii "
+    charz
+    @lengthOf(asx) `` , }
+packet
+matchKey
+{  @tag( 3
+) @calculatedFrom( ""a	b""
+/// triple
+// c
+)
+@calculatedFrom("""" ) pack	rootA
+    ,  repeat //	t
+leftPad `` , repeat uint32 Foo `u8 x,` , @calculatedFrom(
+""" ++ [233]%N ++ runes_of_ascii "t" ++ [233]%N ++ runes_of_ascii """) repeat char[ 65535 ] u , @lengthOf( _x )@lengthOf( u8x ) repeat zchar[ 0123456789 ] x
+, match i64_ // " ++ [27880; 37322]%N ++ runes_of_ascii "
+as falsey{ // trailing space 
+255 :
+f32a , ""{,}"" : x ,""\" ++ [233]%N ++ runes_of_ascii """	: matchKey
+,
+[	"""",
+    // trailing space 
+    ""{,}"" ,
+    10 , """ ++ [128512]%N ++ runes_of_ascii """
+// a // b
+// packet A { u8 x, }
+, ""a	b"", 0
+,
+""1"",65535
+]: len , ""\" ++ [233]%N ++ runes_of_ascii """ :
+    T
+, [ ""CRC32"" ,
+    // " ++ [128512]%N ++ runes_of_ascii " emoji
+    1 , ""// no comment""
+, 007,1 ,	""`tick`"", """ ++ [128512]%N ++ runes_of_ascii """
+]// packet A { u8 x, }
+: a1  },match
+x as
+As
+{
+    ""a	b"":	o , 007
+:MetaDataX  ,  [
+""a	b""
+]:
+falsey , ""// no comment""
+    : Z9_""packet"":
+    _x
+    // " ++ [128512]%N ++ runes_of_ascii " emoji
+    , },repeat rootA {	uint8 MetaDataX
+    @calculatedFrom(
+    ""abc""
+    ) ,
+    match // `tick` ""quote"" 'q'
+int as// a // b
+asx {	[10	,
+10 , ""`tick`""  , 00 , 4294967296 ]
+    :
+    o ,
+    ""CRC32"" :
+string_ , [ 0
+]
+:	roots 65535 :
+// " ++ [27880; 37322]%N ++ runes_of_ascii "
+// trailing space 
+_x //
+, ""it's"" : Pad, 4294967296 : Pad , }
+,	u16	chars
+`line1
+line2`
+, //x
+}
+    ,
+}")).
+Eval vm_compute in ("<<<M376>>>" ++ check (runes_of_ascii "options {
+	StringPrefixLenType = u16;
+	ArrayPrefixLenType = u16;
+}
+
+packet SampleBinary {
+    uint16 MsgType `" ++ [28040; 24687; 31867; 22411]%N ++ runes_of_ascii "`,
+    u16 BodyLenght @lengthOf(Body) `" ++ [28040; 24687; 20307; 38271; 24230]%N ++ runes_of_ascii "`,
+    match MsgType as Body {
+        1 : Logon,
+        2 : Logout,
+        3 : Heartbeat,
+        4 : RiskControlRequest,
+        5 : RiskControlResponse,
+    },
+        @calculatedFrom(""CRC32"")
+    u32 Ckecksum `" ++ [26657; 39564; 21644]%N ++ runes_of_ascii "`,
+}
+
+packet Logon {
+     @leftPad('0')
+    char[10] UserName `" ++ [29992; 25143; 21517]%N ++ runes_of_ascii "`,
+    string Password `" ++ [23494; 30721]%N ++ runes_of_ascii "`,
+    uint64 ClientId `" ++ [23458; 25143; 31471]%N ++ runes_of_ascii "ID`,
+    u16 HeartbeatInterval `" ++ [24515; 36339; 38388; 38548]%N ++ runes_of_ascii "`,
+}
+
+packet Logout {
+      @rightPad('0')
+    char[10] UserName `" ++ [29992; 25143; 21517]%N ++ runes_of_ascii "`,
+    uint64 ClientId `" ++ [23458; 25143; 31471]%N ++ runes_of_ascii "ID`,
+}
+
+packet Heartbeat {
+}
+
+packet RiskControlRequest {
+    string UniqueOrderId `" ++ [21807; 19968; 35746; 21333; 21495]%N ++ runes_of_ascii "`,
+    char[16] ClOrdID `" ++ [23458; 25143; 35746; 21333; 21495]%N ++ runes_of_ascii "`,
+    char[3] MarketID `" ++ [24066; 22330]%N ++ runes_of_ascii "id`,
+    char[12] SecurityID `" ++ [35777; 21048; 20195; 30721]%N ++ runes_of_ascii "`,
+    char Side `" ++ [20080; 21334; 26041; 21521]%N ++ runes_of_ascii "`,
+    char OrderType `" ++ [35746; 21333; 31867; 22411]%N ++ runes_of_ascii "`,
+    u64 Price `" ++ [20215; 26684]%N ++ runes_of_ascii "`,
+    u32 Qty `" ++ [25968; 37327]%N ++ runes_of_ascii "`,
+    repeat string ExtraInfo `" ++ [38468; 21152; 20449; 24687]%N ++ runes_of_ascii "`,
+    repeat SubOrder {
+    		char[16] ClOrdID `" ++ [23376; 35746; 21333; 21495]%N ++ runes_of_ascii "`,
+    		u64 Price `" ++ [23376; 35746; 21333; 20215; 26684]%N ++ runes_of_ascii "`,
+    		u32 Qty `" ++ [23376; 35746; 21333; 25968; 37327]%N ++ runes_of_ascii "`,
+    	},
+}
+
+packet RiskControlResponse {
+    string UniqueOrderId `" ++ [21807; 19968; 35746; 21333; 21495]%N ++ runes_of_ascii "`,
+    i32 Status `" ++ [29366; 24577]%N ++ runes_of_ascii "`,
+    string Msg `" ++ [32467; 26524; 20449; 24687]%N ++ runes_of_ascii "`,
+    repeat Detail,
+}
+
+packet Detail {
+    string RuleName `" ++ [35268; 21017; 21517; 31216]%N ++ runes_of_ascii "`,
+    u16 Code `" ++ [21407; 22240; 20195; 30721]%N ++ runes_of_ascii "`,
+}")).
+Eval vm_compute in ("<<<M125>>>" ++ check (runes_of_ascii "options {
+// a // b
+// trailing space 
+Pad
+    =
+// " ++ [128512]%N ++ runes_of_ascii " emoji
+// " ++ [128512]%N ++ runes_of_ascii " emoji
+false Logon = uint32 ; // " ++ [128512]%N ++ runes_of_ascii " emoji
+x_y_z =
+    1 }
+    MetaData
+// `tick` ""quote"" 'q'
+//	t
+_x
+    {
+    uint32
+stringy ,
+zchar[ 42
+    ] A,
+} packet A {
+    match As as string_/// triple
+{ 0 :
+/// triple
+// `tick` ""quote"" 'q'
+Z9_ ,}
+,  @lengthOf(
+    Z9_ )@lengthOf( x_y_z )As
+    @lengthOf( As )
+`doc` ,
+u64 calculatedFrom	@calculatedFrom(
+""abc"")
+`// not a comment` , // c
+Packet //	t
+string_ ,
+    // trailing space 
+    @lengthOf(  Z9_
+    ) Z9_ @lengthOf( body)// trailing space 
+,
+calculatedFrom
+BodyLength , @lengthOf( msg_type
+)repeat
+char tag `it's` ,
+}
+    packet zchar { @leftPad (
+//x
+//
+)
+    repeat zchar[ 3 ]Z9_
+, } // `tick` ""quote"" 'q'
+packet chars { @lengthOf( Z9_ ) repeat string crc , string MetaDataX ,@calculatedFrom( """"
+    )
+x
+    ,
+u8x//
+, @tag(10 ) match
+    falsey as	tag {""CRC32""	: x
+    , /// triple
+} //	t
+,
+x_y_z`tab	here`
+,
+@rightPad(
+'0'
+)int16
+Logon
+    ,trueish
+, @rightPad
+( )
+_x @calculatedFrom(
+""packet""// c
+), } // @lengthOf(")).
+Eval vm_compute in ("<<<M261>>>" ++ check (runes_of_ascii "root packet pack { match MetaDataX as Packet { 7: trueish , /// triple
+""" ++ [233]%N ++ runes_of_ascii "t" ++ [233]%N ++ runes_of_ascii """: MetaDataX
+,4294967296
+:msg_type  65535 : metadata ,3: x_y_z 42 :
+//
+/// triple
+_x// trailing space 
+,}	, } packet x_y_z
+    {repeat crc	metadata,match A as u8x  { [""it's"" ,""\" ++ [233]%N ++ runes_of_ascii """ ,
+0123456789  , ""1"" ,""abc""
+,""// no comment"", 4294967296 ]
+: pack ,007 : tag , } , } packet
+// c
+//x
+repeatCount  { @lengthOf(stringy )
+uint8 f32a , }options
+{
+BodyLength
+    =  '\x00' ; body
+    = ' ' ; } packet
+    charz { repeat Z9_ rootA `two words` , //
+@calculatedFrom( ""a\\""  ) f32a @lengthOf( msg_type
+    )	`say ""hi""` ,int8 As , string	stringy
+@lengthOf(options1 )
+`crlf
+line`,	i8 i8i8
+, f32a options1,
+@leftPad(
+    '\x00' )
+u
+    @calculatedFrom( """ ++ [128512]%N ++ runes_of_ascii """
+) ,
+@calculatedFrom(
+""\" ++ [233]%N ++ runes_of_ascii """ ) @tag(  00 ) @tag(
+0)
+int64 trueish@calculatedFrom(""`tick`"" // trailing space 
+)
+, @leftPad (
+' ' )
+    zchar@lengthOf( Z9_ )
+,} // " ++ [27880; 37322]%N)).
+Eval vm_compute in ("<<<M264>>>" ++ check (runes_of_ascii "
+root packet u128 { @calculatedFrom( ""// no comment"" ) @tag(	10//	t
+) @calculatedFrom( ""packet"" ) BodyLength ``
+    , char BodyLength `two words`	, repeat uint32 f32a // trailing space 
+, crc {	repeat
+repeatCount Packet , MetaDataX@lengthOf(
+    chars
+),
+options1 _x ,
+repeat float64 T//x
+,} ,@tag( 3 )
+    @leftPad
+( '\x00') @rightPad
+(
 // @lengthOf(
 /// triple
-, """ ++ [128512]%N ++ runes_of_ascii """
-, """ ++ [28040; 24687]%N ++ runes_of_ascii """	, 007// c
-]	:
+)
+    match string_ as MetaDataX { ""packet"" : float ,[
+    ""abc"" // @lengthOf(
+, """"
+    // packet A { u8 x, }
+    ,	3
+,
+    //x
+    65535 ,
+    ""a	b""
+,//	t
+42
+    ,
+    1 ,
+    ""packet"" ]:
+i64_
 // `tick` ""quote"" 'q'
-//x
-leftPad, [ ""x y"" ] :
+/// triple
+,
+// " ++ [27880; 37322]%N ++ runes_of_ascii "
 // trailing space 
-//
-chars[ //	t
-10  ,3, ""`tick`"" ]: Header , }
-    , }
-")).
+7 :lengthOf 0:
+len
+// trailing space 
+// packet A { u8 x, }
+,
+10 :  len , [ //	t
+0
+] : A
+    //	t
+    , }, }")).
 Eval vm_compute in ("<<<M325>>>" ++ check (runes_of_ascii "
 root// packet A { u8 x, }
 packet As
@@ -1563,1502 +1115,602 @@ leftPad
     options{ int =65535 ;
     }
 ")).
-Eval vm_compute in ("<<<M359>>>" ++ check (runes_of_ascii "  root
-    packet o
-{ a1 a1	, char[
-3 ] i8i8 `
-` , @calculatedFrom( ""a\""b"" )// packet A { u8 x, }
-repeat /// triple
-Pad
-    , }
-// `tick` ""quote"" 'q'
-// `tick` ""quote"" 'q'
+Eval vm_compute in ("<<<M1801>>>" ++ check (runes_of_ascii "
 packet
-    tag{ i8i8 @calculatedFrom( ""x y"" )
-`it's`
-, @lengthOf(x_y_z
-) @calculatedFrom(
-//
-//	t
-""a\""b""
-    ) u {
-match	a1 as
-    Logon { ""\n"" : Pad
-,3
-:	body , """"
-:// `tick` ""quote"" 'q'
-Logon ,
-""\n"" : T
-, ""`tick`""
-:
-    tag ,
-[ """ ++ [233]%N ++ runes_of_ascii "t" ++ [233]%N ++ runes_of_ascii """/// triple
-,
-7,
-""a\""b""	, 0123456789
-,""abc"" , """ ++ [28040; 24687]%N ++ runes_of_ascii """ ,0 ] : Z9_
-    },
-    char[ 00  ]//
-string_@lengthOf( asx ), char[
-    1 ]falsey , } ,match	crc
-as
-    lengthOf {
-    4294967296 : a1
-}, }
-")).
-Eval vm_compute in ("<<<M595>>>" ++ check (runes_of_ascii "
-options
-{asx =
-    // " ++ [27880; 37322]%N ++ runes_of_ascii "
-    string ;}options
-// " ++ [27880; 37322]%N ++ runes_of_ascii "
-// trailing space 
-{ repeatCount = zchar[0
-    ] ; leftPad
-// packet A { u8 x, }
-// @lengthOf(
-=
-    string
-    ; uint8x
-= '0'
-    ; }
-//x
-//	t
-root packet uint8x { trueish x_y_z , As
-// a // b
-//	t
-, zchar[//
-00 ] uint8x @lengthOf( a1 ) //
-`say ""hi""`
-    ,
-    @leftPad
-    (  )
-zchar[ 4294967296 ]
-    // @lengthOf(
-    metadata
-    `say ""hi""` ,float32 u128
-`line1
-line2`, char[ 10]
-    // " ++ [27880; 37322]%N ++ runes_of_ascii "
-    lengthOf@calculatedFrom( ""CRC32""
-) `doc` ,a1@lengthOf( chars )
-,
-    char[ 10 ] calculatedFrom
-, repeat
-uint32 As
-    ,	}")).
-Eval vm_compute in ("<<<M4548>>>" ++ check (runes_of_ascii "packet body {
-    @tag(00)
-    zchar[255] zchar @calculatedFrom(""it's""),
-    int8 i8i8,
-    x_y_z @lengthOf(options1),
-    // packet A { u8 x, }
-    zchar[00] T,
-    repeat float64 chars,
-    f64 repeatCount `doc`,
-    repeat i64_ repeatCount,
-    repeat Header int,
-    uint16 len `line1
-    line2`,
-    @lengthOf(Header)
-    @tag(0123456789)
-    float64 u8x @lengthOf(options1) `u8 x,`,
-}
 
-options {
-    x = ""\" ++ [233]%N ++ runes_of_ascii """;
-}
-
-// " ++ [128512]%N ++ runes_of_ascii " emoji
-MetaData trueish {
-    options1 float ``,// a // b
-    zchar[3] lengthOf,
-}
-
-options {
-    rootA = ""1""
-    T = """ ++ [128512]%N ++ runes_of_ascii """
-}")).
-Eval vm_compute in ("<<<M432>>>" ++ check (runes_of_ascii "packet A {Logon// @lengthOf(
-o
-,	u8x{ // @lengthOf(
-asx // " ++ [27880; 37322]%N ++ runes_of_ascii "
-chars, }
-    , x o
-,@leftPad
-    ( )// trailing space 
-As
-// c
-//x
-@lengthOf(
-u)	,}MetaData f32a{crc
-    Logon ,}	root packet
-    u128 {stringy Logon// " ++ [128512]%N ++ runes_of_ascii " emoji
-`a\`, @calculatedFrom( // c
-""1""
-)	@leftPad
-    // a // b
-    ( '\x00' ) @tag(255 )int64 stringy @lengthOf(lengthOf //	t
-) `line1
-line2`, rootA `
-`,@calculatedFrom( ""a	b""
-    )// packet A { u8 x, }
-o
-@calculatedFrom(  ""`tick`"" ) // @lengthOf(
-`a\`
-, repeatCount @lengthOf(
-    T ) // @lengthOf(
-, }
-")).
-Eval vm_compute in ("<<<M4362>>>" ++ check (runes_of_ascii "
-packet
-    metadata
-    {match trueish as  body
-
-{0123456789  : A,
-	1:
-	rootA[ 	 //
-	  ""packet""
-
-    ,
-
-65535, 65535
-
-,
-
-""a	b""  ,
-42	, ""x y""
-,
-
-1 // @lengthOf(
-
-,
-
-    0	] : 
-// packet A { u8 x, }
-    // " ++ [128512]%N ++ runes_of_ascii " emoji
-  u128
-, //	t
-	10	: As, 0123456789	:
-stringy,
-""x y"" :  BodyLength , }
-,	i64_
-
-    options1`a\`
-    ,	}
-
-    packet trueish{ 
+    a1 
         /// triple
-  	}packet BodyLength
-
-{i32
-charz	,
-
-@calculatedFrom( // @lengthOf(
-      """ ++ [28040; 24687]%N ++ runes_of_ascii """ ) repeat float32
-	asx`doc` ,
-    }	// trailing space 
- 
-")).
-Eval vm_compute in ("<<<M706>>>" ++ check (runes_of_ascii "packet  o
-    { chars  {
-// `tick` ""quote"" 'q'
-//
-repeat  options1 {repeat lengthOf packetx , }
-, repeat
-a1	,	} , repeat leftPad , } // packet A { u8 x, }
-packet
-float{ f64	string_ @lengthOf( float
-) , repeat
-f64
-uint8x , @tag(1 )
-    packetx{ i32 asx,}
-// `tick` ""quote"" 'q'
-// a // b
-, i64_ @lengthOf(
-    u128
-) `u8 x,` ,
-    asx // trailing space 
-{ string calculatedFrom	`u8 x,`
-, uint8 falsey @calculatedFrom( ""x y""
-),
-} , int32 Header
-, }
-//
-/// triple
-MetaData u8x { }
-")).
-Eval vm_compute in ("<<<M3884>>>" ++ check (runes_of_ascii "
-
-  options
-	{
-x
-=
-    3
-
-    matchKey
-
-    =
-""a\""b""	// @lengthOf(
-	leftPad=
-
-""packet""
-	;
-	T
-
-    =
-
-zchar[ 65535	] 
-; }
-
-MetaData
-MetaDataX
-
-{ }	MetaData  // " ++ [128512]%N ++ runes_of_ascii " emoji
-repeatCount{
-u8x
-    Pad
-
-, 
-}
-packet T
-{  @tag(
-    42 
-) repeat
-
-    MetaDataX `{ , }` 
-// a // b
-	,// @lengthOf(
-
-float32
-	x
-@lengthOf(
-u8x  )
-`
-`
-,int16
-matchKey  @calculatedFrom( ""\n""
-	)`two words`,
-}packet
-	packetx  { _x
-
-@calculatedFrom(""a\""b""
-    )`a\`,}	// a // b
-")).
-Eval vm_compute in ("<<<M4558>>>" ++ check (runes_of_ascii "MetaData
-	float { 
-u8 Packet
-,
-string i64_ `" ++ [28040; 24687; 31867; 22411]%N ++ runes_of_ascii "`
-
-,
-
-    charz 
-pack
-	, char rootA ,char[
-
-    0123456789 ]
-
-    msg_type	,
-
-    uint8	calculatedFrom 
-, }packet
-
-Pad
-	{
-
-}
-root
-	packet
-len
-    { // c
-  matchKey@calculatedFrom( 
-""a\""b""
-) 
-`u8 x,`  ,//x
-
-  @leftPad  (
-
-    )
-match
-
-    roots
-as u128
-{
-
-    [ 4294967296  
-  // packet A { u8 x, }
-,  007]
-:body  , 
-}
-    ,
-    charz
-    , 
-    // trailing space 
-	}
-")).
-Eval vm_compute in ("<<<M4395>>>" ++ check (runes_of_ascii "
-packet
-	u8x 
-{	//
-  asx 
-// a // b
-  // @lengthOf(
-`say ""hi""`
-	    //x
-
-  ,
-
-    }
-    MetaData
-
-Foo { 
-packetx
-
-    MetaDataX `" ++ [28040; 24687; 31867; 22411]%N ++ runes_of_ascii "` , }
-	packet
-a1
-
-{
-
-    @calculatedFrom(
-
-    ""\" ++ [233]%N ++ runes_of_ascii """// trailing space 
-	  ) len
-    // " ++ [27880; 37322]%N ++ runes_of_ascii "
-
-  // c
-`` ,
-
-    @calculatedFrom( ""a\\"" // trailing space 
-  	)@lengthOf( calculatedFrom )	//	t
-  string msg_type
-        // trailing space 
-	// c
-  , }
-        // packet A { u8 x, }
-")).
-Eval vm_compute in ("<<<M4163>>>" ++ check (runes_of_ascii "packet repeatCount {
-    @rightPad(' ')
-    char[42] Header @calculatedFrom(""a\\""),
-    // packet A { u8 x, }
-    // packet A { u8 x, }
-    @tag(10)
-    i64 options1 @calculatedFrom(""x y""),
-    Packet {
-        i64 lengthOf @calculatedFrom(""abc""),
-        repeat zchar[00] i64_ `u8 x,`,
-    },
-    string tag,
-    string o `" ++ [233]%N ++ runes_of_ascii "`,
-    repeat char[42] a1 `doc`,
-    string leftPad @calculatedFrom(""a\\""),
-}")).
-Eval vm_compute in ("<<<M122>>>" ++ check (runes_of_ascii "
-packet  u
-    //	t
-    {uint32 metadata	,	@lengthOf( metadata // " ++ [27880; 37322]%N ++ runes_of_ascii "
-)
-// `tick` ""quote"" 'q'
-// c
-repeat Logon
-    ,x_y_z// a // b
-, @lengthOf(
-    tag )
-// " ++ [128512]%N ++ runes_of_ascii " emoji
-// c
-float msg_type	,}MetaData chars { u8x
-    matchKey
-// " ++ [27880; 37322]%N ++ runes_of_ascii "
-//x
-,
-    uint8
-    x_y_z `u8 x,`, zchar x_y_z `doc` ,	char i64_ `a\` ,f32 tag//	t
-, } MetaData _x {
-// trailing space 
-// `tick` ""quote"" 'q'
-} options { }
-")).
-Eval vm_compute in ("<<<M4474>>>" ++ check (runes_of_ascii "packet
-
-f32a  { }
-
-packet 
-metadata{
-
-    @calculatedFrom(""\" ++ [233]%N ++ runes_of_ascii """
-	) repeat  _x
-	{string
-	    // a // b
-    	falsey
-
-, } ,
-
-@calculatedFrom(
-""it's""
-
-) As 
-leftPad`a\`  ,
-@calculatedFrom(
-	""abc""  ) 
-char[  //	t
-    0]  roots , @tag(
-00) match Pad as
-	roots {
-10
-:
-    x_y_z 
-,
-
-    00 : 
-len  [	""// no comment""
-]// a // b
-  :
-T}	, 
-a1 Header
-`" ++ [233]%N ++ runes_of_ascii "`
-    ,// " ++ [27880; 37322]%N ++ runes_of_ascii "
-
-  }
-")).
-Eval vm_compute in ("<<<M542>>>" ++ check (runes_of_ascii "packet // a // b
-chars { @leftPad (  )
-char[ 42] asx
-,
-@tag( 007 ) matchKey
+    	{
+uint8
     As
-,  @leftPad ( // a // b
-'\x00' // " ++ [128512]%N ++ runes_of_ascii " emoji
-) msg_type`u8 x,` ,
-    repeat  charz// packet A { u8 x, }
-{ int64 f32a ,Header { u32 MetaDataX ,
+
+, // `tick` ""quote"" 'q'
+
 char[
-3
-] repeatCount @calculatedFrom(""packet""
-)
-`tab	here`
-, repeat f64 Logon
-`
-`
-, }
-, }
-//
-// trailing space 
-, } //	t")).
-Eval vm_compute in ("<<<M44>>>" ++ check (runes_of_ascii "packet rootA { @rightPad( ' ') repeat
-    Z9_ roots
-``,	zchar
-tag `two words` , @rightPad ( ' '
-    )
-len {
-// trailing space 
-//x
-u128
-`doc` ,u8x
-    ,  char[ 0123456789 // a // b
-]calculatedFrom  `" ++ [28040; 24687; 31867; 22411]%N ++ runes_of_ascii "`,msg_type
-@lengthOf(
-falsey)`u8 x,` , } ,
-@calculatedFrom( """"	)	f64 charz
-@lengthOf(msg_type) `it's`// trailing space 
-,
-    }
-")).
-Eval vm_compute in ("<<<M1883>>>" ++ check (runes_of_ascii "MetaData
-    u { }  options @lengthOf(
-// c
-// @lengthOf(
-float = int8 ;rootA =false ; As =	int16 // `tick` ""quote"" 'q'
-repeatCount
-    // trailing space 
-    =
-    int16
-; u8x =
-    //	t
-    '\x00' ; } options	{
-    repeatCount
-= 0
-u128
-    //
-    = false ; i64_
-// trailing space 
-// `tick` ""quote"" 'q'
-= '0' ; //	t
-}
-")).
-Eval vm_compute in ("<<<M2038>>>" ++ check (runes_of_ascii "MetaData
-    u { }  options {
-// c
-// @lengthOf(
-float = int8 ;rootA =false ; As =	int16 // `tick` ""quote"" 'q'
-repeatCount
-    // trailing space 
-    =
-    int16
-; u8x =
-    //	t
-    '\x00' ; } options	{
-    repeatCount
-= 0
-u128
-    //
-    = false ; i64_
-// trailing space 
-// `tick` ""quote"" 'q'
-int16 '0' ; //	t
-}
-")).
-Eval vm_compute in ("<<<M2016>>>" ++ check (runes_of_ascii "MetaData
-    u { }  options {
-// c
-// @lengthOf(
-float = int8 ;rootA =false ; As =	int16 // `tick` ""quote"" 'q'
-repeatCount
-    // trailing space 
-    =
-    int16
-; u8x =
-    //	t
-    '\x00' ; } options	{
-    repeatCount
-= 0
-u128
-    //
-    = = false ; i64_
-// trailing space 
-// `tick` ""quote"" 'q'
-= '0' ; //	t
-}
-")).
-Eval vm_compute in ("<<<M1862>>>" ++ check (runes_of_ascii "MetaData
-    { u }  options {
-// c
-// @lengthOf(
-float = int8 ;rootA =false ; As =	int16 // `tick` ""quote"" 'q'
-repeatCount
-    // trailing space 
-    =
-    int16
-; u8x =
-    //	t
-    '\x00' ; } options	{
-    repeatCount
-= 0
-u128
-    //
-    = false ; i64_
-// trailing space 
-// `tick` ""quote"" 'q'
-= '0' ; //	t
-}
-")).
-Eval vm_compute in ("<<<M2007>>>" ++ check (runes_of_ascii "MetaData
-    u { }  options {
-// c
-// @lengthOf(
-float = int8 ;rootA =false ; As =	int16 // `tick` ""quote"" 'q'
-repeatCount
-    // trailing space 
-    =
-    int16
-; u8x =
-    //	t
-    '\x00' ; } options	{
-    repeatCount
-= u128
-0
-    //
-    = false ; i64_
-// trailing space 
-// `tick` ""quote"" 'q'
-= '0' ; //	t
-}
-")).
-Eval vm_compute in ("<<<M2005>>>" ++ check (runes_of_ascii "MetaData
-    u { }  options {
-// c
-// @lengthOf(
-float = int8 ;rootA =false ; As =	int16 // `tick` ""quote"" 'q'
-repeatCount
-    // trailing space 
-    =
-    int16
-; u8x =
-    //	t
-    '\x00' ; } options	{
-    repeatCount
-= 
-u128
-    //
-    = false ; i64_
-// trailing space 
-// `tick` ""quote"" 'q'
-= '0' ; //	t
-}
-")).
-Eval vm_compute in ("<<<M1140>>>" ++ check (runes_of_ascii "
-options  {Foo =
-    true // trailing space 
-;}
-    packet
-u128{ @calculatedFrom( ""x y"")  lengthOf@lengthOf(
-msg_type)	`tab	here` ,
-    asx
-x
-, zchar[ 10
-    // c
-    ] i64_ , repeat body ,
-char[255 // @lengthOf(
-]asx@calculatedFrom( """ ++ [128512]%N ++ runes_of_ascii """
-    )
-`crlf
-line`,u128
-    string_ ,
-int { zchar[ 7
-]_x , }  , }")).
-Eval vm_compute in ("<<<M501>>>" ++ check (runes_of_ascii "packet Foo{
-    char[ 10
-]f32a
-@lengthOf(
-calculatedFrom )
-    `crlf
-line`
-    , match pack as A// `tick` ""quote"" 'q'
-{ """ ++ [233]%N ++ runes_of_ascii "t" ++ [233]%N ++ runes_of_ascii """ :	f32a /// triple
-,[ ""x y"" , ""`tick`"" ] : falsey , ""x y""
-    //x
-    : Foo ,
-    7 : chars// c
-,""{,}""  :u128 , 255:
-A , } ,string
-//x
-// trailing space 
-T `
-` ,} /// triple")).
-Eval vm_compute in ("<<<M3710>>>" ++ check (runes_of_ascii "
-packet
-f32a{
-	}	MetaData
-
-x {	BodyLength
-zchar ,// @lengthOf(
-    }packet
-
-    metadata
-
-    {
-    @tag(
-7 ) @lengthOf(
-
-uint8x )body	{
-u8
-
-    Z9_	@calculatedFrom(  /// triple
-""it's"" )
-
-`u8 x,` 
-    // @lengthOf(
-	,	},float32
-	falsey 
-@lengthOf( u  //	t
-    ) `line1
-line2`
-
-,
-	} ")).
-Eval vm_compute in ("<<<M4453>>>" ++ check (runes_of_ascii "packet zchar {
-    char[] i64_,
-    // " ++ [128512]%N ++ runes_of_ascii " emoji
-    @calculatedFrom(""// no comment"")
-    match charz as tag {
-        [
-            ""it's"", 4294967296, ""a	b"", """ ++ [28040; 24687]%N ++ runes_of_ascii """, """ ++ [128512]%N ++ runes_of_ascii """,
-            255, 007
-        ] : i64_,
-        [0123456789, 3, 00] : Packet,
-        [""" ++ [233]%N ++ runes_of_ascii "t" ++ [233]%N ++ runes_of_ascii """] : a1,
-    },
-}")).
-Eval vm_compute in ("<<<M932>>>" ++ check (runes_of_ascii "packet Packet { f32a// @lengthOf(
-pack ,  @tag(00
-)@tag( //	t
-7  ) // @lengthOf(
-A @calculatedFrom( ""\" ++ [233]%N ++ runes_of_ascii """
-// " ++ [27880; 37322]%N ++ runes_of_ascii "
-// " ++ [128512]%N ++ runes_of_ascii " emoji
-) ,crc	stringy
-    ,	}	packet Packet
-{ i64 u8x `u8 x,`
-    , // " ++ [27880; 37322]%N ++ runes_of_ascii "
-@leftPad ( '\x00' )
-@lengthOf( MetaDataX ) @lengthOf(As ) chars o `" ++ [28040; 24687; 31867; 22411]%N ++ runes_of_ascii "` , }")).
-Eval vm_compute in ("<<<M1114>>>" ++ check (runes_of_ascii "
-packet calculatedFrom
-{
-@lengthOf( rootA
-    )
-    @tag( 0 )  repeat  lengthOf
-    // trailing space 
-    Pad `doc`,
-} // packet A { u8 x, }
-options
-    {
-lengthOf	= false x_y_z= true  ;_x = u8; zchar=
-    char[ 10 ] MetaDataX
-    =
-    true } packet	T { }")).
-Eval vm_compute in ("<<<M1600>>>" ++ check (runes_of_ascii "packet
-//	t
-// trailing space 
-_x {
-// packet A { u8 x, }
-// c
-char[
-3
-    ] u8x @lengthOf(
-u8x ) , @calculatedFrom(""" ++ [128512]%N ++ runes_of_ascii """ // @lengthOf(
-)
-i16	Foo
-@lengthOf(	string_
-    )`doc`	, repeat	repeat metadata , @lengthOf( string_
-) i8 // c
-u  `line1
-line2`	,
-}
-")).
-Eval vm_compute in ("<<<M1656>>>" ++ check (runes_of_ascii "packet
-//	t
-// trailing space 
-_x {
-// packet A { u8 x, }
-// c
-char[
-3
-    ] u8x @lengthOf(
-u8x ) , @calculatedFrom(""" ++ [128512]%N ++ runes_of_ascii """ // @lengthOf(
-)
-i16	Foo
-@lengthOf(	string_
-    )`doc`	, repeat	i64 metadata , `@lengthOf( string_
-) i8 // c
-u  `line1
-line2`	,
-}
-")).
-Eval vm_compute in ("<<<M1574>>>" ++ check (runes_of_ascii "packet
-//	t
-// trailing space 
-_x {
-// packet A { u8 x, }
-// c
-char[
-3
-    ] u8x @lengthOf(
-u8x ) , @calculatedFrom(""" ++ [128512]%N ++ runes_of_ascii """ // @lengthOf(
-)
-i16	Foo
-@lengthOf(	)
-    string_`doc`	, repeat	i64 metadata , @lengthOf( string_
-) i8 // c
-u  `line1
-line2`	,
-}
-")).
-Eval vm_compute in ("<<<M1607>>>" ++ check (runes_of_ascii "packet
-//	t
-// trailing space 
-_x {
-// packet A { u8 x, }
-// c
-char[
-3
-    ] u8x @lengthOf(
-u8x ) , @calculatedFrom(""" ++ [128512]%N ++ runes_of_ascii """ // @lengthOf(
-)
-i16	Foo
-@lengthOf(	string_
-    )`doc`	, repeat	i64 metadata  @lengthOf( string_
-) i8 // c
-u  `line1
-line2`	,
-}
-")).
-Eval vm_compute in ("<<<M1488>>>" ++ check (runes_of_ascii "
-//	t
-// trailing space 
-_x {
-// packet A { u8 x, }
-// c
-char[
-3
-    ] u8x @lengthOf(
-u8x ) , @calculatedFrom(""" ++ [128512]%N ++ runes_of_ascii """ // @lengthOf(
-)
-i16	Foo
-@lengthOf(	string_
-    )`doc`	, repeat	i64 metadata , @lengthOf( string_
-) i8 // c
-u  `line1
-line2`	,
-}
-")).
-Eval vm_compute in ("<<<M4182>>>" ++ check (runes_of_ascii "  // top
-	root// c0
-		packet
-
-// c1
-P// c2a
-  // c2b
-    {  // c3a
-    // c3b
-	hdr
-
-    { 	 // c5a
-// c5b
-	u8 	 // c6a
-  	// c6b
-      a
-	,
-    // c8
-	} 	 // c9a
-	// c9b
-    	, u8 // c11a
-  // c11b
-x
-        // c12
-	,
-    // c13
-}")).
-Eval vm_compute in ("<<<M4014>>>" ++ check (runes_of_ascii "packet matchKey {
-    // packet A { u8 x, }
-    zchar[65535] Foo @calculatedFrom(""\n"") ``,
-    @tag(10)
-    repeat x Logon `
-        `,
-    @calculatedFrom(""it's"")
-    @rightPad()
-    zchar[255] lengthOf,
-    repeat uint8x `" ++ [233]%N ++ runes_of_ascii "`,
-}")).
-Eval vm_compute in ("<<<M3587>>>" ++ check (runes_of_ascii "// top
-packet // c0a
-  // c0b
-order_item
-    // c1
-{ u8 // c3a
-  // c3b
-a ,
-    // c5
-} // c6a
-  // c6b
-root
-    // c7
-packet // c8a
-  // c8b
-new_order // c9a
-  // c9b
-{ order_item
-    // c11
-,
-    // c12
-u8 x // c14
-, } ")).
-Eval vm_compute in ("<<<M718>>>" ++ check (runes_of_ascii "packet stringy {
-    u @calculatedFrom(""" ++ [233]%N ++ runes_of_ascii "t" ++ [233]%N ++ runes_of_ascii """
-), repeat
-pack string_ , zchar[7
-]x_y_z  , }
-    options{ Pad
-= false _x =
-    ""\" ++ [233]%N ++ runes_of_ascii """ ;
-}MetaData zchar {
-    uint8 trueish `it's` ,char[ 65535]
-uint8x ,  stringy tag ,}")).
-Eval vm_compute in ("<<<M1804>>>" ++ check (runes_of_ascii "options { trueish = ""`tick`"" ; string_= """ ++ [233]%N ++ runes_of_ascii "t" ++ [233]%N ++ runes_of_ascii """
-    // c
-    } root
-    packet body { stringy @calculatedFrom(
-""a	b"" ) `line1
-line2` , }
-packet Logon {
-    @leftPad(
-    0123456789 ) //	t
-u16 string_ `u8 x,` ,
-}
-")).
-Eval vm_compute in ("<<<M331>>>" ++ check (runes_of_ascii "options {
-calculatedFrom =  '0'
-    // c
-    float= char[] ; Pad= 0	;//	t
-_x
-    // packet A { u8 x, }
-    =007
-    ;
-}packet u
-    { @lengthOf( u) repeat
-string /// triple
-o
-,} root packet lengthOf { }
-
-")).
-Eval vm_compute in ("<<<M1829>>>" ++ check (runes_of_ascii "options { trueish = ""`tick`"" ; string_= """ ++ [233]%N ++ runes_of_ascii "t" ++ [233]%N ++ runes_of_ascii """
-    // c
-    } root
-    packet body { stringy @calculatedFrom(
-""a	b"" ) `line1
-line2` , }
-packet Logon {
-    @leftPad(
-    ' ' ) //	t
-u16 string_ `u8 x,` as
-}
-")).
-Eval vm_compute in ("<<<M1768>>>" ++ check (runes_of_ascii "options { trueish = ""`tick`"" ; string_= """ ++ [233]%N ++ runes_of_ascii "t" ++ [233]%N ++ runes_of_ascii """
-    // c
-    } root
-    packet body { stringy @calculatedFrom(
-""a	b"" ) `line1
-line2` } ,
-packet Logon {
-    @leftPad(
-    ' ' ) //	t
-u16 string_ `u8 x,` ,
-}
-")).
-Eval vm_compute in ("<<<M1796>>>" ++ check (runes_of_ascii "options { trueish = ""`tick`"" ; string_= """ ++ [233]%N ++ runes_of_ascii "t" ++ [233]%N ++ runes_of_ascii """
-    // c
-    } root
-    packet body { stringy @calculatedFrom(
-""a	b"" ) `line1
-line2` , }
-packet Logon {
-    @leftPad
-    ' ' ) //	t
-u16 string_ `u8 x,` ,
-}
-")).
-Eval vm_compute in ("<<<M1726>>>" ++ check (runes_of_ascii "options { trueish = ""`tick`"" ; string_= """ ++ [233]%N ++ runes_of_ascii "t" ++ [233]%N ++ runes_of_ascii """
-    // c
-    } root
-     body { stringy @calculatedFrom(
-""a	b"" ) `line1
-line2` , }
-packet Logon {
-    @leftPad(
-    ' ' ) //	t
-u16 string_ `u8 x,` ,
-}
-")).
-Eval vm_compute in ("<<<M4003>>>" ++ check (runes_of_ascii "// top
-packet metadata {
-    // c2
-    Logon {
-        // c4
-        A `" ++ [28040; 24687; 31867; 22411]%N ++ runes_of_ascii "`,
-        // c7
-        tag o,
-        // c10
-    },
-    // c12
-    zchar len `// not a comment`,
-    // c16
-}
-// c17")).
-Eval vm_compute in ("<<<M4223>>>" ++ check (runes_of_ascii "
-packet  falsey
-
-    {
-}
-    packet
-
-    stringy 
-{ repeatCount	//	t
-
-	@calculatedFrom(
-""a	b""	//x
-    ) ,
-
-@lengthOf( string_  )
-    repeat 
-i64_ metadata`
-`  /// triple
-      , }
-
-")).
-Eval vm_compute in ("<<<M4095>>>" ++ check (runes_of_ascii "packet Z9_ {
-}// " ++ [27880; 37322]%N ++ runes_of_ascii "
-
-MetaData packetx {
-    u8 x_y_z `it's`,
-}
-
-packet options1 {
-    uint16 rootA `" ++ [28040; 24687; 31867; 22411]%N ++ runes_of_ascii "`,// " ++ [128512]%N ++ runes_of_ascii " emoji
-    repeat string stringy `" ++ [233]%N ++ runes_of_ascii "`,
-    char[] repeatCount `" ++ [28040; 24687; 31867; 22411]%N ++ runes_of_ascii "`,
-}")).
-Eval vm_compute in ("<<<M1815>>>" ++ check (runes_of_ascii "options { trueish = ""`tick`"" ; string_= """ ++ [233]%N ++ runes_of_ascii "t" ++ [233]%N ++ runes_of_ascii """
-    // c
-    } root
-    packet body { stringy @calculatedFrom(
-""a	b"" ) `line1
-line2` , }
-packet Logon {
-    @leftPad(
-    ' ' )")).
-Eval vm_compute in ("<<<M249>>>" ++ check (runes_of_ascii "
-root packet /// triple
-Foo { int32 tag
-    `doc` , char[0
-    ]
-    u8x`u8 x,`
-, charz charz
-    , @rightPad(' ')@tag( 3 ) @rightPad	('0' )
+1  ]
+chars @lengthOf(
+    msg_type) ,
 repeat
-int16	float ,}
+    char[
+1  ]
+x_y_z
+
+`two words` 
+
+//x
+
+	, // c
+@tag(
+00 )
+int32 i8i8	,u64 trueish,
+    // @lengthOf(
+  @lengthOf(
+
+body
+
+) 
+int16
+
+    float  @lengthOf(
+    tag
+) ,  // " ++ [128512]%N ++ runes_of_ascii " emoji
+  	x	// trailing space 
+
+@calculatedFrom(
+	""`tick`"" ),  }
+MetaData
+
+x_y_z{
+	char[
+    10 ]chars,
+
+    Z9_
+	pack `
+`,string
+As,	//x
+		len
+
+int,  A
+
+Z9_
+    ,
+	} options
+{
+o
+=
+	0123456789
+
+    ;
+_x
+    = ' '
+; }
 ")).
-Eval vm_compute in ("<<<M1048>>>" ++ check (runes_of_ascii "packet falsey { }
-    packet
-    stringy
-    { repeatCount //	t
-@calculatedFrom(  ""a	b"" //x
-) ,
-@lengthOf( string_ )
-    repeat i64_ metadata
-`
-` /// triple
+Eval vm_compute in ("<<<M152>>>" ++ check (runes_of_ascii "
+options{	roots ='\x00' lengthOf
+=
+    true
+; Packet = // `tick` ""quote"" 'q'
+""packet"" ; o = // packet A { u8 x, }
+""packet"" ; A// " ++ [27880; 37322]%N ++ runes_of_ascii "
+=
+    //
+    true ; // trailing space 
+} packet body
+{ _x ,	zchar[
+65535
+]
+Header @calculatedFrom( // trailing space 
+""""  ) `u8 x,` , }
+root packet
+    //	t
+    T // trailing space 
+{ @tag(// trailing space 
+7) @tag( 0
+    )
+@leftPad( '0' )// a // b
+int64
+x @lengthOf( Packet )
+    , msg_type stringy
+`" ++ [28040; 24687; 31867; 22411]%N ++ runes_of_ascii "`/// triple
+, } /// triple")).
+Eval vm_compute in ("<<<M218>>>" ++ check (runes_of_ascii "packet lengthOf {
+f64 lengthOf
+@lengthOf(a1
+)
+`" ++ [28040; 24687; 31867; 22411]%N ++ runes_of_ascii "`
+, uint64 Logon `" ++ [233]%N ++ runes_of_ascii "`
+,	string Pad@calculatedFrom( ""\n"" )
+/// triple
+// trailing space 
+,zchar[ 0123456789
+    ] Foo @lengthOf( charz )	`// not a comment` ,
+@rightPad ()match falsey
+    as Packet{ """"
+    :
+u ,
+65535 :
+float ,[  4294967296
+] :	trueish // trailing space 
+,	[10 ,0123456789 ]  :
+Logon , 1 : roots [  7 ,
+""\" ++ [233]%N ++ runes_of_ascii """ , 00
+    //
+    ]:
+float , } ,}
+")).
+Eval vm_compute in ("<<<M230>>>" ++ check (runes_of_ascii "packet x { lengthOf rootA , @rightPad
+( '0' )
+i8 asx @lengthOf( calculatedFrom // a // b
+),
+@lengthOf( Pad ) repeat //x
+int16 trueish // c
+``// " ++ [27880; 37322]%N ++ runes_of_ascii "
+, @calculatedFrom(
+""" ++ [128512]%N ++ runes_of_ascii """) @tag(0
+)
+@lengthOf( // a // b
+matchKey ) string MetaDataX`doc`
+,
+i16 // `tick` ""quote"" 'q'
+options1 @lengthOf(
+    // " ++ [27880; 37322]%N ++ runes_of_ascii "
+    u8x
+    // " ++ [128512]%N ++ runes_of_ascii " emoji
+    ) `a\` ,
+    u128
+u128`line1
+line2`,}")).
+Eval vm_compute in ("<<<M65>>>" ++ check (runes_of_ascii "  options	{ string_
+=true; } options
+{ T
+= false}
+packet
+u8x { @lengthOf( int
+    //
+    )
+zchar[ 255 ] BodyLength , } // trailing space 
+root
+packet
+    f32a  { }packet roots
+{ Foo
+    , repeat char[ 007 ] Pad
+,repeat  int8
+packetx
+    ,
+    match Z9_ as T	{
+00 :A , ""a\""b"" :
+    falsey  , //
+""CRC32""
+:a1
+,
+    }	, }
+")).
+Eval vm_compute in ("<<<M2057>>>" ++ check (runes_of_ascii "// packet A { u8 x, }
+options {
+    T = ""packet"";
+}
+
+MetaData x_y_z {
+    char roots,
+    T f32a `{ , }`,
+}
+
+root packet uint8x {
+    @calculatedFrom(""// no comment"")
+    repeat As {
+        rootA @calculatedFrom(""" ++ [28040; 24687]%N ++ runes_of_ascii """) `{ , }`,
+        u16 zchar `{ , }`,
+        char[7] o `" ++ [233]%N ++ runes_of_ascii "`,
+    },
+}")).
+Eval vm_compute in ("<<<M624>>>" ++ check (runes_of_ascii "root packet tag { }  packet MetaDataX{char[007	]
+// c
+/// triple
+asx  @calculatedFrom( ""a\""b""
+) `say ""hi""`// " ++ [27880; 37322]%N ++ runes_of_ascii "
+,  @tag(4294967296 )
+    char[1//x
+] packetx @calculatedFrom(""a\""b""
+    ) ,
+// " ++ [128512]%N ++ runes_of_ascii " emoji
+// a // b
+@calculatedFrom(""" ++ [233]%N ++ runes_of_ascii "t" ++ [233]%N ++ runes_of_ascii """ """ ++ [233]%N ++ runes_of_ascii "t" ++ [233]%N ++ runes_of_ascii """  ) repeat pack // " ++ [27880; 37322]%N ++ runes_of_ascii "
+,
+    } // c")).
+Eval vm_compute in ("<<<M589>>>" ++ check (runes_of_ascii "root packet tag { }  packet MetaDataX{char[007	]
+// c
+/// triple
+asx  @calculatedFrom( ""a\""b""
+) `say ""hi""`// " ++ [27880; 37322]%N ++ runes_of_ascii "
+,  @tag(4294967296 )
+    char[1//x
+] ] packetx @calculatedFrom(""a\""b""
+    ) ,
+// " ++ [128512]%N ++ runes_of_ascii " emoji
+// a // b
+@calculatedFrom(""" ++ [233]%N ++ runes_of_ascii "t" ++ [233]%N ++ runes_of_ascii """  ) repeat pack // " ++ [27880; 37322]%N ++ runes_of_ascii "
+,
+    } // c")).
+Eval vm_compute in ("<<<M72>>>" ++ check (runes_of_ascii "MetaData len //	t
+{ f64 calculatedFrom , x_y_z	x
+,} packet repeatCount { @lengthOf(pack ) match
+x_y_z as o // " ++ [27880; 37322]%N ++ runes_of_ascii "
+{ 7:
+Header
+// `tick` ""quote"" 'q'
+// a // b
+} , } options { lengthOf  = true; }
+packet  leftPad
+    {
+    MetaDataX @lengthOf( T ) `two words` ,
+    }")).
+Eval vm_compute in ("<<<M640>>>" ++ check (runes_of_ascii "root packet tag { }  packet MetaDataX{char[007	]
+// c
+/// triple
+asx  @calculatedFrom( ""a\""b""
+) `say ""hi""`// " ++ [27880; 37322]%N ++ runes_of_ascii "
+,  @tag(4294967296 )
+    char[1//x
+] packetx @calculatedFrom(""a\""b""
+    ) ,
+// " ++ [128512]%N ++ runes_of_ascii " emoji
+// a // b
+@calculatedFrom(""" ++ [233]%N ++ runes_of_ascii "t" ++ [233]%N ++ runes_of_ascii """  ) repeat , // " ++ [27880; 37322]%N ++ runes_of_ascii "
+pack
+    } // c")).
+Eval vm_compute in ("<<<M533>>>" ++ check (runes_of_ascii "root packet tag { }  packet MetaDataX{char[007	]
+// c
+/// triple
+  @calculatedFrom( ""a\""b""
+) `say ""hi""`// " ++ [27880; 37322]%N ++ runes_of_ascii "
+,  @tag(4294967296 )
+    char[1//x
+] packetx @calculatedFrom(""a\""b""
+    ) ,
+// " ++ [128512]%N ++ runes_of_ascii " emoji
+// a // b
+@calculatedFrom(""" ++ [233]%N ++ runes_of_ascii "t" ++ [233]%N ++ runes_of_ascii """  ) repeat pack // " ++ [27880; 37322]%N ++ runes_of_ascii "
+,
+    } // c")).
+Eval vm_compute in ("<<<M2063>>>" ++ check (runes_of_ascii "options {
+    LittleEndian = true;
+}
+
+packet Logon {
+    u8 x,
+    string user,
+}
+
+packet Logout {
+    u16 reason,
+}
+
+packet Empty {
+}
+
+root packet Frame {
+    u16 MsgType,
+    u16 BodyLen @lengthOf(Body),
+    u8 flags,
+    Logon Body,
+    u32 trailer,
+}")).
+Eval vm_compute in ("<<<M627>>>" ++ check (runes_of_ascii "root packet tag { }  packet MetaDataX{char[007	]
+// c
+/// triple
+asx  @calculatedFrom( ""a\""b""
+) `say ""hi""`// " ++ [27880; 37322]%N ++ runes_of_ascii "
+,  @tag(4294967296 )
+    char[1//x
+] packetx @calculatedFrom(""a\""b""
+    ) ,
+// " ++ [128512]%N ++ runes_of_ascii " emoji
+// a // b
+@calculatedFrom(")).
+Eval vm_compute in ("<<<M1521>>>" ++ check (runes_of_ascii "packet Logon {
+    string user,
+}
+root packet Frame {
+    u8 K,
+    match K as Body {
+        1 : Logon,
+        2 : Logout,
+    },
+    Tail,
+}
+packet Logout {
+    u16 reason,
+}
+packet Tail {
+    u32 crc,
+}
+")).
+Eval vm_compute in ("<<<M1121>>>" ++ check (runes_of_ascii "packet metadata // c1a
+  // c1b
+{ Logon // c3
+{ // c4
+A `" ++ [28040; 24687; 31867; 22411]%N ++ runes_of_ascii "`
+    // c6
+, // c7a
+  // c7b
+tag o , // c10a
+  // c10b
+} // c11a
+  // c11b
+, // c12
+zchar len // c14
+`// not a comment` , } ")).
+Eval vm_compute in ("<<<M712>>>" ++ check (runes_of_ascii "root packet len // trailing space 
+{
+// " ++ [27880; 37322]%N ++ runes_of_ascii "
+//	t
+char[10
+] metadata	@lengthOf( o ) `crlf
+line`,
+    @rightPad
+( ' '
+) string
+    Header @calculatedFrom( ""a\\""
+    options, }
+")).
+Eval vm_compute in ("<<<M462>>>" ++ check (runes_of_ascii "packet
+    // `tick` ""quote"" 'q'
+    crc
+// packet A { u8 x, }
+//	t
+{
+u32 a1 ,
+    // trailing space 
+    roots
+charz //
+`two words`,	}
+    MetaData int ''{
+} /// triple")).
+Eval vm_compute in ("<<<M416>>>" ++ check (runes_of_ascii "packet
+    // `tick` ""quote"" 'q'
+    crc
+// packet A { u8 x, }
+//	t
+{
+u32 a1 ,
+    // trailing space 
+    charz
+roots //
+`two words`,	}
+    MetaData int {
+} /// triple")).
+Eval vm_compute in ("<<<M675>>>" ++ check (runes_of_ascii "root packet len // trailing space 
+{
+// " ++ [27880; 37322]%N ++ runes_of_ascii "
+//	t
+char[10
+] metadata	@lengthOf( o ) `crlf
+line`,
+    @rightPad
+( ' '
+ string
+    Header @calculatedFrom( ""a\\""
+    ), }
+")).
+Eval vm_compute in ("<<<M250>>>" ++ check (runes_of_ascii "packet tag
+{@rightPad( )	zchar[ 00
+    //x
+    ] //x
+MetaDataX `" ++ [233]%N ++ runes_of_ascii "` ,
+    float32 Header `say ""hi""`
+// " ++ [128512]%N ++ runes_of_ascii " emoji
+// `tick` ""quote"" 'q'
+, } MetaData
+T{int lengthOf  ,}")).
+Eval vm_compute in ("<<<M304>>>" ++ check (runes_of_ascii "  packet
+    Packet { i8 MetaDataX , }
+    root packet
+    a1
+{ rootA @lengthOf( uint8x )
+    ,
+    repeatCount
+{
+char[]u , u16
+msg_type
+`a\` ,
+    }
 , }
 ")).
-Eval vm_compute in ("<<<M455>>>" ++ check (runes_of_ascii "root packet
-repeatCount {  }
-    MetaData // a // b
-crc
-{
-float32 x ,	float64 falsey `
-` , //x
-u32 //
-f32a`" ++ [233]%N ++ runes_of_ascii "` ,uint16 MetaDataX
-,
-}options	{ len
-= 10
-    }
-")).
-Eval vm_compute in ("<<<M1576>>>" ++ check (runes_of_ascii "packet
-//	t
-// trailing space 
-_x {
-// packet A { u8 x, }
+Eval vm_compute in ("<<<M587>>>" ++ check (runes_of_ascii "root packet tag { }  packet MetaDataX{char[007	]
 // c
-char[
-3
-    ] u8x @lengthOf(
-u8x ) , @calculatedFrom(""" ++ [128512]%N ++ runes_of_ascii """ // @lengthOf(
-)
-i16	Foo
-@lengthOf(")).
-Eval vm_compute in ("<<<M2419>>>" ++ check (runes_of_ascii "// c
-packe#t x { @lengthOf( metadata ) repeat lengthOf
-,a1{
-trueish	,// c
-repeat//	t
-MetaDataX , } , zchar[
-    42	] rootA // `tick` ""quote"" 'q'
-,
-    }
+/// triple
+asx  @calculatedFrom( ""a\""b""
+) `say ""hi""`// " ++ [27880; 37322]%N ++ runes_of_ascii "
+,  @tag(4294967296 )
+    char[")).
+Eval vm_compute in ("<<<M1271>>>" ++ check (runes_of_ascii "// top
+packet // c0
+x // c1
+{ // c2
+@rightPad // c3
+( // c4
+) // c5
+repeat // c6
+roots // c7
+Logon // c8
+`doc` // c9
+, // c10
+} // c11
 ")).
-Eval vm_compute in ("<<<M2382>>>" ++ check (runes_of_ascii "// c
-packet { x @lengthOf( metadata ) repeat lengthOf
-,a1{
-trueish	,// c
-repeat//	t
-MetaDataX , } , zchar[
-    42	] rootA // `tick` ""quote"" 'q'
-,
-    }
-")).
-Eval vm_compute in ("<<<M4590>>>" ++ check (runes_of_ascii "
-MetaData u { 
-BodyLength
-    repeatCount	// packet A { u8 x, }
-  ,
-} 
-options {
-	string_
-
-= 
-false;
-
-i8i8  =  10  ; 
-} root
-
-packet float {
-    }  //
- 
-")).
-Eval vm_compute in ("<<<M2373>>>" ++ check (runes_of_ascii "// c
-packet x { @lengthOf( metadata ) repeat lengthOf
-,a1{
-trueish	,// c
-repeat//	t
-MetaDataX , } , zchar[
-    	] rootA // `tick` ""quote"" 'q'
-,
-    }
-")).
-Eval vm_compute in ("<<<M60>>>" ++ check (runes_of_ascii "MetaData crc // trailing space 
-{}options
-{ metadata = 10 ; u = 65535
-repeatCount
-    = char[ 0123456789 // packet A { u8 x, }
-]  }MetaData i8i8{ }
-")).
-Eval vm_compute in ("<<<M15>>>" ++ check (runes_of_ascii "options { matchKey
-    =
-10 } MetaData options1{
-    matchKey o `doc` , rootA tag
-,uint32 _x /// triple
-`line1
-line2`, char[] chars `say ""hi""`,  }")).
-Eval vm_compute in ("<<<M743>>>" ++ check (runes_of_ascii "
-MetaData
-    A{ calculatedFrom
-falsey `line1
-line2` , //x
-char[ 255 ]T
-    `
-` , float32 Logon ,
-    stringy
-i8i8 ,
-char[]rootA
-`{ , }` , }
-")).
-Eval vm_compute in ("<<<M417>>>" ++ check (runes_of_ascii "  options {  }
-root  packet i8i8 { } packet
-asx {
-    f64
-pack,@calculatedFrom( ""a\\""	)zchar[	255	]rootA `it's`
-    // c
-    , // " ++ [27880; 37322]%N ++ runes_of_ascii "
-} // " ++ [27880; 37322]%N)).
-Eval vm_compute in ("<<<M1561>>>" ++ check (runes_of_ascii "packet
-//	t
-// trailing space 
-_x {
-// packet A { u8 x, }
+Eval vm_compute in ("<<<M2071>>>" ++ check (runes_of_ascii "packet A {
+    match k as n {
+        [
+            1, 22, ""c c"", 4, 5,
+            ""f""
+        ] : B,
+        2 : C,
+    },
+}")).
+Eval vm_compute in ("<<<M1234>>>" ++ check (runes_of_ascii "root packet matchKey { zchar[ 3
 // c
-char[
-3
-    ] u8x @lengthOf(
-u8x ) , @calculatedFrom(""" ++ [128512]%N ++ runes_of_ascii """ // @lengthOf(
-)")).
-Eval vm_compute in ("<<<M670>>>" ++ check (runes_of_ascii "//	t
-MetaData asx
-{
-zchar Packet `" ++ [233]%N ++ runes_of_ascii "` ,	zchar[ 42 ]
-f32a
-    , } options {
-    // packet A { u8 x, }
-    tag=
-    ""\n"" ;
-    }
-")).
-Eval vm_compute in ("<<<M4360>>>" ++ check (runes_of_ascii "root packet matchKey {
-    zchar[3] pack @calculatedFrom(""a	b"") `doc`,
-}
-
-options {
-}
-
-MetaData A {
-    int8 msg_type,
-}
-// c")).
-Eval vm_compute in ("<<<M3358>>>" ++ check (runes_of_ascii "root packet matchKey { zchar[ 3 ] pack @calculatedFrom( ""a	b"" ) `doc` , } options { } MetaData A { int8 msg_type , } // c
-")).
-Eval vm_compute in ("<<<M3331>>>" ++ check (runes_of_ascii "root packet matchKey { zchar[ 3 ] pack @calculatedFrom( ""a	b""
+] pack @calculatedFrom( ""a	b"" ) `doc` , } options { } MetaData A { int8 msg_type , }")).
+Eval vm_compute in ("<<<M1266>>>" ++ check (runes_of_ascii "root packet matchKey { zchar[ 3 ] pack @calculatedFrom( ""a	b"" ) `doc` , } options { } MetaData A { int8 msg_type
 // c
-) `doc` , } options { } MetaData A { int8 msg_type , }")).
-Eval vm_compute in ("<<<M649>>>" ++ check (runes_of_ascii "root packet
-string_{
-@calculatedFrom( ""`tick`"" )
-    uint8 stringy `a\` //
-, int16 Packet @calculatedFrom( ""it's"" ), }")).
-Eval vm_compute in ("<<<M3553>>>" ++ check (runes_of_ascii "
+, }")).
+Eval vm_compute in ("<<<M962>>>" ++ check (runes_of_ascii "packet A {
+    match k as n {
+        ""x\
+y"" : B,
+        [""x\
+y"", 1] : C,
+        [1,2,3,4,5,""x\
+y""] : D,
+    },
+}")).
+Eval vm_compute in ("<<<M1756>>>" ++ check (runes_of_ascii "
+packet FooBar
+	{ u8
+	a  ,
 
-  packet B
+    }  packet foo_bar{  u16 
+b 
+,	}root
+    packet
+    R	{FooBar ,	foo_bar
+,}
 
-{
-
-u8
-    a
-    , string
-s	,
-}
-
-root  packet P
-
-{
-	u16 
-L
-@lengthOf(B ) ,	B,
-
-    u8
-    t
-    ,
-}
 ")).
-Eval vm_compute in ("<<<M629>>>" ++ check (runes_of_ascii "
+Eval vm_compute in ("<<<M897>>>" ++ check (runes_of_ascii "packet A {
+  match k as n {
+    [""a"", ""bb"", 007, ""d"", ""e"", 66, ""g"", ""h"", 9, ""j"", ""k""] : B
+    2 : C
+  },
+}")).
+Eval vm_compute in ("<<<M205>>>" ++ check (runes_of_ascii "  root packet// " ++ [128512]%N ++ runes_of_ascii " emoji
+o
+    {
+    @calculatedFrom( ""a\""b"" //x
+) repeat crc ,	@tag( 10  )
+x_y_z, }
+")).
+Eval vm_compute in ("<<<M894>>>" ++ check (runes_of_ascii "packet A {
+  match k as n {
+    [1, 22, ""c c"", 4, 5, ""f"", 7, 8, ""i"", 10, 11] : B,
+    2 : C
+  },
+}")).
+Eval vm_compute in ("<<<M172>>>" ++ check (runes_of_ascii "
 options
-{stringy= 7
-    ;
-    float = 0 ;tag //	t
-=	42
-    charz =
-char[ 00
-    ] msg_type = ""CRC32"" } /// triple")).
-Eval vm_compute in ("<<<M6>>>" ++ check (runes_of_ascii "root	packet
-    charz { // " ++ [128512]%N ++ runes_of_ascii " emoji
-repeat char[65535
-]
-options1,} options  { As=
-    //
-    ""\n""
-    } // a // b")).
-Eval vm_compute in ("<<<M1420>>>" ++ check (runes_of_ascii "
-packet
-    falsey { Header MetaData""packet""  ) , char[
-    0123456789 ] packetx
-    , } // `tick` ""quote"" 'q'")).
-Eval vm_compute in ("<<<M2995>>>" ++ check (runes_of_ascii "packet A {
-  match k as n {
-    [""a"", 22, ""c c"", 4, ""e"", 66, ""g"", 8, ""i"", 10, ""k"", 12] : B
-    2 : C
-  },
-}")).
-Eval vm_compute in ("<<<M3911>>>" ++ check (runes_of_ascii "packet chars	{
+    // " ++ [128512]%N ++ runes_of_ascii " emoji
+    {  roots= false ; f32a = ""// no comment""
+// " ++ [128512]%N ++ runes_of_ascii " emoji
+// a // b
+;
 }
-packet
-MetaDataX
-	{	@tag(
-	42 )
-    i16
-string_, 
-repeat// c
-	  x `say ""hi""` 
-,  }
 ")).
-Eval vm_compute in ("<<<M4451>>>" ++ check (runes_of_ascii "
-// " ++ [27880; 37322]%N ++ runes_of_ascii "
-	  MetaData  msg_type {
-}MetaData 
-Pad
-{ int64 Header ,}
-    MetaData
-matchKey	{
-
-    } //
-")).
-Eval vm_compute in ("<<<M4230>>>" ++ check (runes_of_ascii "
-MetaData  body { 	 // c
-	  i64 pack 
-`it's`  ,  }
-	packet
-    stringy	{	int16	calculatedFrom , }
-")).
-Eval vm_compute in ("<<<M3677>>>" ++ check (runes_of_ascii "
-MetaData stringy	{
-	zchar[4294967296	]	charz ,
-string// `tick` ""quote"" 'q'
-	x_y_z,
-
-    }
-")).
-Eval vm_compute in ("<<<M2946>>>" ++ check (runes_of_ascii "packet A {
-  match k as n {
-    [""a"", ""bb"", 007, ""d"", ""e"", 66, ""g"", ""h""] : B,
-    2 : C
-  },
-}")).
-Eval vm_compute in ("<<<M2953>>>" ++ check (runes_of_ascii "packet A {
-  match k as n {
-    [1, ""bb"", 007, ""d"", 5, ""f"", 7, ""h"", 9] : B,
-    2 : C
-  },
-}")).
-Eval vm_compute in ("<<<M2957>>>" ++ check (runes_of_ascii "packet A {
+Eval vm_compute in ("<<<M868>>>" ++ check (runes_of_ascii "packet A {
   match k as n {
     [1, 22, ""c c"", 4, 5, ""f"", 7, 8, ""i""] : B,
     2 : C
   },
 }")).
-Eval vm_compute in ("<<<M3279>>>" ++ check (runes_of_ascii "MetaData float { float64 charz `
-` // c
-, } root packet chars { @rightPad ( '0' ) Foo , }")).
-Eval vm_compute in ("<<<M3490>>>" ++ check (runes_of_ascii "packet chars {
+Eval vm_compute in ("<<<M1193>>>" ++ check (runes_of_ascii "MetaData float { float64 charz `
+` ,
 // c
-} packet MetaDataX { @tag( 42 ) i16 string_ , repeat x `say ""hi""` , }")).
-Eval vm_compute in ("<<<M4070>>>" ++ check (runes_of_ascii "packet A {
+} root packet chars { @rightPad ( '0' ) Foo , }")).
+Eval vm_compute in ("<<<M1404>>>" ++ check (runes_of_ascii "packet chars { } packet // c
+MetaDataX { @tag( 42 ) i16 string_ , repeat x `say ""hi""` , }")).
+Eval vm_compute in ("<<<M852>>>" ++ check (runes_of_ascii "packet A {
+  match k as n {
+    [1, ""bb"", 007, ""d"", 5, ""f"", 7, ""h""] : B
+    2 : C
+  },
+}")).
+Eval vm_compute in ("<<<M1134>>>" ++ check (runes_of_ascii "packet metadata { Logon { A // c
+`" ++ [28040; 24687; 31867; 22411]%N ++ runes_of_ascii "` , tag o , } , zchar len `// not a comment` , }")).
+Eval vm_compute in ("<<<M1338>>>" ++ check (runes_of_ascii "// c
+packet o { repeat Logon uint8x , } options { asx = zchar[ 3 ] stringy = '\x00' }")).
+Eval vm_compute in ("<<<M1371>>>" ++ check (runes_of_ascii "packet o { repeat Logon uint8x , } options { asx = zchar[ 3 ] stringy
+// c
+= '\x00' }")).
+Eval vm_compute in ("<<<M810>>>" ++ check (runes_of_ascii "packet A {
+  match k as n {
+    [""a"", ""bb"", ""c c"", ""d"", ""e""] : B,
+    2 : C
+  },
+}")).
+Eval vm_compute in ("<<<M1332>>>" ++ check (runes_of_ascii "MetaData body { i64 pack `it's` , } packet stringy { int16 calculatedFrom ,
+// c
+}")).
+Eval vm_compute in ("<<<M1900>>>" ++ check (runes_of_ascii "packet A {
     match k as n {
-        [1, ""bb"", 007, ""d"", 5] : B,
+        [1, 22, 007] : B,
         2 : C,
     },
 }")).
-Eval vm_compute in ("<<<M2296>>>" ++ check (runes_of_ascii "options
-{ } options { ""BodyLength= u16 Header= f64 ; u128 =
-    true
-    ; } // a // b")).
-Eval vm_compute in ("<<<M2223>>>" ++ check (runes_of_ascii "options
-{ } { options BodyLength= u16 Header= f64 ; u128 =
-    true
-    ; } // a // b")).
-Eval vm_compute in ("<<<M3230>>>" ++ check (runes_of_ascii "packet metadata { Logon { A `" ++ [28040; 24687; 31867; 22411]%N ++ runes_of_ascii "` , tag
-// c
-o , } , zchar len `// not a comment` , }")).
-Eval vm_compute in ("<<<M2271>>>" ++ check (runes_of_ascii "options
-{ } options { BodyLength= u16 Header= f64 ; u128 
-    true
-    ; } // a // b")).
-Eval vm_compute in ("<<<M3453>>>" ++ check (runes_of_ascii "packet o { repeat Logon uint8x , } options { asx = zchar[ // c
-3 ] stringy = '\x00' }")).
-Eval vm_compute in ("<<<M832>>>" ++ check (runes_of_ascii "options
-{A =
-char ; } MetaData// @lengthOf(
-metadata { crc matchKey `u8 x,` ,
+Eval vm_compute in ("<<<M1673>>>" ++ check (runes_of_ascii "
+
+  packet A
+	{
+match
+    k
+    as 
+n  {  [""a"" ,22 ] : B
+	2 : C
+}
+,  }
+
+")).
+Eval vm_compute in ("<<<M30>>>" ++ check (runes_of_ascii "MetaData
+T {crc /// triple
+u8x `say ""hi""` , } // `tick` ""quote"" 'q'")).
+Eval vm_compute in ("<<<M776>>>" ++ check (runes_of_ascii "packet A {
+  match k as n {
+    [""a"", ""bb""] : B
+    2 : C
+  },
+}")).
+Eval vm_compute in ("<<<M770>>>" ++ check (runes_of_ascii "packet A {
+  match k as n {
+    [""a""] : B,
+    2 : C
+  },
+}")).
+Eval vm_compute in ("<<<M1292>>>" ++ check (runes_of_ascii "packet x { @rightPad ( ) repeat roots Logon // c
+`doc` , }")).
+Eval vm_compute in ("<<<M1658>>>" ++ check (runes_of_ascii "packet
+
+A
+
+{ u8
+    x
+
+    , // c
+u8
+
+    y
+,} ")).
+Eval vm_compute in ("<<<M346>>>" ++ check (runes_of_ascii "MetaData leftPad // `tick` ""quote"" 'q'
+{
     }")).
-Eval vm_compute in ("<<<M3396>>>" ++ check (runes_of_ascii "MetaData body // c
-{ i64 pack `it's` , } packet stringy { int16 calculatedFrom , }")).
-Eval vm_compute in ("<<<M507>>>" ++ check (runes_of_ascii "packet packetx
-    {
-// trailing space 
-/// triple
-@calculatedFrom( """" ) Z9_ , }
+Eval vm_compute in ("<<<M139>>>" ++ check (runes_of_ascii "MetaData
+packetx {  zchar[7
+]u128 , }
 ")).
-Eval vm_compute in ("<<<M2163>>>" ++ check (runes_of_ascii "options{
-_x
-= true
-} options
-{ o	= /// triple
-false
-    ; chars
-= ""\n"" } root")).
-Eval vm_compute in ("<<<M1521>>>" ++ check (runes_of_ascii "packet
-//	t
-// trailing space 
-_x {
-// packet A { u8 x, }
-// c
-char[
-3
-    ]")).
-Eval vm_compute in ("<<<M2692>>>" ++ check (runes_of_ascii "match , char uint64 MetaData @tag( @tag( uint16 [ packet int16 MetaData )")).
-Eval vm_compute in ("<<<M1119>>>" ++ check (runes_of_ascii "MetaData
-    // a // b
-    options1 { Pad
-options1	,// " ++ [27880; 37322]%N ++ runes_of_ascii "
-}
-// " ++ [128512]%N ++ runes_of_ascii " emoji
-")).
-Eval vm_compute in ("<<<M1914>>>" ++ check (runes_of_ascii "MetaData
-    u { }  options {
-// c
-// @lengthOf(
-float = int8 ;rootA")).
-Eval vm_compute in ("<<<M4459>>>" ++ check (runes_of_ascii "
-
-  options
-
-{
-body  =
-	false 
-;  }
-	    // `tick` ""quote"" 'q'
-")).
-Eval vm_compute in ("<<<M2708>>>" ++ check (runes_of_ascii "[ '0' packet Logon char @lengthOf( ) ; ) MetaData ; int16 f64 (")).
-Eval vm_compute in ("<<<M3023>>>" ++ check (runes_of_ascii "MetaData M {
+Eval vm_compute in ("<<<M738>>>" ++ check (runes_of_ascii "0 char } uint16 MetaData @tag( As false")).
+Eval vm_compute in ("<<<M923>>>" ++ check (runes_of_ascii "root packet A {
     u8 x `a
-    b
-  c`,
-    T t `a
-    b
-  c`,
+b`,
 }")).
-Eval vm_compute in ("<<<M2138>>>" ++ check (runes_of_ascii "options{
-_x
-= true
-} options
-{ o	= /// triple
-false
-    ;")).
-Eval vm_compute in ("<<<M3686>>>" ++ check (runes_of_ascii "packet x {
-    @rightPad()
-    repeat roots Logon `doc`,
+Eval vm_compute in ("<<<M973>>>" ++ check (runes_of_ascii "packet A {
+ u8 x `d `, // c 
 }")).
-Eval vm_compute in ("<<<M509>>>" ++ check (runes_of_ascii "root packet i64_ {tag
-Pad, } root packet
-    charz {
+Eval vm_compute in ("<<<M1988>>>" ++ check (runes_of_ascii "// c
+  root	packet	pack { 
 }")).
-Eval vm_compute in ("<<<M1431>>>" ++ check (runes_of_ascii "
-packet
-    falsey { Header@calculatedFrom(""packet""")).
-Eval vm_compute in ("<<<M66>>>" ++ check (runes_of_ascii "// c
-MetaData calculatedFrom {Foo msg_type ,
-}
-")).
-Eval vm_compute in ("<<<M810>>>" ++ check (runes_of_ascii "options
-//	t
-// @lengthOf(
-{
-roots
-=""" ++ [28040; 24687]%N ++ runes_of_ascii """
-; }")).
-Eval vm_compute in ("<<<M2713>>>" ++ check (runes_of_ascii "i32 @leftPad '0' f64 as root ; } root int64")).
-Eval vm_compute in ("<<<M3844>>>" ++ check (runes_of_ascii "options {
-    repeatCount = 3/// triple
-}")).
-Eval vm_compute in ("<<<M4260>>>" ++ check (runes_of_ascii "
-//
-  options{
-    Z9_=
-	65535
-    ;
-}
-")).
-Eval vm_compute in ("<<<M2672>>>" ++ check (runes_of_ascii "options { a = 1; } options { a = 1; }")).
-Eval vm_compute in ("<<<M799>>>" ++ check (runes_of_ascii "//
-options {
-    Z9_  =	65535; } 	 ")).
-Eval vm_compute in ("<<<M2789>>>" ++ check (runes_of_ascii "= packet = ) repeat repeat options")).
-Eval vm_compute in ("<<<M2566>>>" ++ check (runes_of_ascii "packet A { repeat repeat u8 x, }")).
-Eval vm_compute in ("<<<M41>>>" ++ check (runes_of_ascii "MetaData crc
-{ } // @lengthOf(")).
-Eval vm_compute in ("<<<M3965>>>" ++ check (runes_of_ascii "MetaData u8x {
-    a1 float,
-}")).
-Eval vm_compute in ("<<<M314>>>" ++ check (runes_of_ascii "MetaData roots	{ u Logon ,}")).
-Eval vm_compute in ("<<<M2595>>>" ++ check (runes_of_ascii "packet A { x @leftPad(), }")).
-Eval vm_compute in ("<<<M3261>>>" ++ check (runes_of_ascii "root packet pack {
+Eval vm_compute in ("<<<M757>>>" ++ check (runes_of_ascii "\Rm'!k4-y+wos=3BJ?w?XzfT")).
+Eval vm_compute in ("<<<M1384>>>" ++ check (runes_of_ascii "MetaData
 // c
-}")).
-Eval vm_compute in ("<<<M2593>>>" ++ check (runes_of_ascii "packet A { x @tag(1), }")).
-Eval vm_compute in ("<<<M2772>>>" ++ check (runes_of_ascii "5rg/0~r2x>%:GDBld$X~A")).
-Eval vm_compute in ("<<<M268>>>" ++ check (runes_of_ascii "  packet
-chars	{ }
-")).
-Eval vm_compute in ("<<<M3477>>>" ++ check (runes_of_ascii "MetaData o {
-// c
-}")).
-Eval vm_compute in ("<<<M3106>>>" ++ check (runes_of_ascii "// c" ++ [8239]%N ++ runes_of_ascii "
-packet A {
-}")).
-Eval vm_compute in ("<<<M2685>>>" ++ check (runes_of_ascii "// only a comment")).
-Eval vm_compute in ("<<<M2661>>>" ++ check (runes_of_ascii "options { = 1; }")).
-Eval vm_compute in ("<<<M423>>>" ++ check (runes_of_ascii "
- /// triple")).
-Eval vm_compute in ("<<<M2488>>>" ++ check (runes_of_ascii "@lengthOf (")).
-Eval vm_compute in ("<<<M2480>>>" ++ check (runes_of_ascii "@leftPad")).
-Eval vm_compute in ("<<<M2442>>>" ++ check (runes_of_ascii "uint88")).
-Eval vm_compute in ("<<<M2485>>>" ++ check (runes_of_ascii "@left")).
-Eval vm_compute in ("<<<M2445>>>" ++ check (runes_of_ascii "i8i8")).
-Eval vm_compute in ("<<<M2475>>>" ++ check (runes_of_ascii "'1'")).
-Eval vm_compute in ("<<<M2440>>>" ++ check (runes_of_ascii "u8")).
-Eval vm_compute in ("<<<M2676>>>" ++ check (runes_of_ascii "x")).
+o { }")).
+Eval vm_compute in ("<<<M1026>>>" ++ check (runes_of_ascii "packet A {
+}
+// c" ++ [11]%N)).
+Eval vm_compute in ("<<<M1044>>>" ++ check (runes_of_ascii "packet A {
+}// c" ++ [65279]%N)).
+Eval vm_compute in ("<<<M744>>>" ++ check (runes_of_ascii "	" ++ [65533; 65533; 65533; 65533; 6; 65533; 65533]%N)).
+Eval vm_compute in ("<<<M1050>>>" ++ check (runes_of_ascii "// c" ++ [6158]%N)).
